@@ -286,6 +286,7 @@ def emit(o, repo, T):
     # =====================================================================================================
     emit_struct(o, repo, T)
     emit_struct3(o, repo, T)
+    emit_struct4(o, repo, T)
 
 
 def _skip_prologue(T, fn, allowed):
@@ -2046,3 +2047,1658 @@ def emit_struct3(o, repo, T):
                 '/-- `expectation_maximization`, leaf loop: entry (row) of `stats`; ln = `lls[node.id]`; the data handed over is `batch[:, node.scope]` -/\n'
                 f'def S3emRespLeaf (ln lr g : F) : F := {f_leaf}']
     o.formula('em.responsibilities', em_resp)
+
+
+# =========================================================================================================
+# Fourth wave (Oblig/Struct4*.lean): cascades, loop bodies and vectorised paths that are modelled by hand and had no
+# extracted fragment yet.  Every definition is emitted under a fresh name `S4…`; nothing above is changed.
+# =========================================================================================================
+def emit_struct4(o, repo, T):
+    U = T.Untranslatable
+    o.consts.append(T.PY4_PRELUDE)
+
+    def named(name, fn):
+        """every failure message names the fragment and says what to do"""
+        def run():
+            try:
+                return fn()
+            except U as ex:
+                raise U(f'fragment {name}: the source no longer has the shape this fragment reads — {ex}')
+        return run
+
+    def const4(name, fn):
+        o.const(name, named(name, fn))
+
+    def formula4(name, fn):
+        o.formula(name, named(name, fn))
+
+    def args_of(fn, expected, what):
+        names = [a.arg for a in fn.args.args]
+        if len(names) != len(expected) or fn.args.vararg or fn.args.kwarg or fn.args.kwonlyargs:
+            raise U(f'{what}: expected {len(expected)} positional parameters, found {names}')
+        return names
+
+    def nodoc(stmts):
+        return [s for s in stmts if not (isinstance(s, ast.Expr) and isinstance(s.value, ast.Constant))]
+
+    def txt(e):
+        return ast.unparse(e).replace(' ', '').replace('\n', '')
+
+    # ---- (a) C04 / C05: learn_spn — the operation-selection cascade ---------------------------------------------------
+    learnspn = T.parse_file(repo, 'deeprob/spn/learning/learnspn.py')
+
+    def enum_members(tree, name):
+        cls = T.the([c for c in tree.body if isinstance(c, ast.ClassDef) and c.name == name], f'class {name}')
+        if [ast.unparse(b) for b in cls.bases] != ['Enum']:
+            raise U(f'class {name} is not an Enum')
+        ms = []
+        for st in nodoc(cls.body):
+            if not (isinstance(st, ast.Assign) and len(st.targets) == 1 and isinstance(st.targets[0], ast.Name)):
+                raise U(f'class {name}: statement that is not a member declaration')
+            ms.append((st.targets[0].id, int(T.const_value(st.value))))
+        if len({v for _, v in ms}) != len(ms):
+            raise U(f'class {name}: two members share a value (aliases)')
+        return ms
+
+    def task_attrs():
+        cls = T.the([c for c in learnspn.body if isinstance(c, ast.ClassDef) and c.name == 'Task'], 'class Task')
+        kinds = {'Node': 'node', 'np.ndarray': 'data', 'List[int]': 'scope', 'bool': 'bool'}
+        attrs = {}
+        for st in nodoc(cls.body):
+            if not (isinstance(st, ast.AnnAssign) and isinstance(st.target, ast.Name) and ast.unparse(st.annotation) in kinds):
+                raise U('class Task: field declaration not understood')
+            attrs[st.target.id] = (f'S3Task.{st.target.id}', kinds[ast.unparse(st.annotation)])
+        return attrs
+
+    def select_parts():
+        fn = T.find_func(learnspn, 'learn_spn')
+        params = [a.arg for a in fn.args.args]
+        loop = T.the([s for s in fn.body if isinstance(s, ast.While)], 'while loop of learn_spn')
+        body = nodoc(loop.body)
+        if not (body and isinstance(body[0], ast.Assign) and isinstance(body[0].targets[0], ast.Name)
+                and txt(body[0].value) in ('tasks.popleft()', 'tasks.pop(0)', 'tasks.pop()')):
+            raise U('learn_spn: the loop does not start by taking the next task')
+        task = body[0].targets[0].id
+        disp = [k for k, s in enumerate(body) if isinstance(s, ast.If) and txt(s.test).startswith('op==OperationKind.')
+                or (isinstance(s, ast.If) and isinstance(s.test, ast.Compare) and txt(s.test.comparators[0]).startswith('OperationKind.'))]
+        k = T.the(disp, 'learn_spn: if-chain on the operation')
+        opname = txt(body[k].test.left)
+        return fn, params, task, body[1:k], opname
+
+    def select_op():
+        members = enum_members(learnspn, 'OperationKind')
+        fn, params, task, pre, opname = select_parts()
+        for h in ('min_rows_slice', 'min_cols_slice'):
+            if h not in params:
+                raise U(f'learn_spn: no parameter {h}')
+        if len(pre) != 3:
+            raise U(f'learn_spn: expected (shape, zero-variance mask, cascade) between the pop and the dispatch, found {len(pre)} statements')
+        sh, zm, casc = pre
+        if not (isinstance(sh, ast.Assign) and isinstance(sh.targets[0], ast.Tuple) and len(sh.targets[0].elts) == 2
+                and all(isinstance(x, ast.Name) for x in sh.targets[0].elts) and txt(sh.value) == f'{task}.data.shape'):
+            raise U('learn_spn: the first statement after the pop is not `<rows>, <cols> = task.data.shape`')
+        a, b = [x.id for x in sh.targets[0].elts]
+        if not (isinstance(zm, ast.Assign) and isinstance(zm.targets[0], ast.Name) and isinstance(zm.value, ast.Call)
+                and (T.dotted_name(zm.value.func) or '') == 'np.isclose' and len(zm.value.args) == 2):
+            raise U('learn_spn: the mask of the uninformative features is not np.isclose(<reduction>, <constant>)')
+        z = zm.targets[0].id
+        red = zm.value.args[0]
+        f, arg, axis, other = T.reduction_call(red)
+        if (f, arg, other) != ('var', f'{task}.data', []):
+            raise U('learn_spn: the mask is not computed from np.var(task.data, axis=…)')
+        if not isinstance(casc, ast.If):
+            raise U('learn_spn: no selection cascade after the mask')
+        tr = T.TrZ4(env={task: ('task', 'obj'), a: (T.lid(a), 'int'), b: (T.lid(b), 'int'), z: ('zeroVar', ('list', 'bool')),
+                         'min_rows_slice': ('min_rows_slice', 'int'), 'min_cols_slice': ('min_cols_slice', 'int')},
+                    attrs=task_attrs(), enums={'OperationKind': ('S4OperationKind', [m for m, _ in members])})
+        arms, last = T.elif_chain(casc)
+        def arm_value(stmts):
+            st = T.the(stmts, 'statement of a cascade arm')
+            if not (isinstance(st, ast.Assign) and isinstance(st.targets[0], ast.Name) and st.targets[0].id == opname):
+                raise U(f'learn_spn: a cascade arm does not just assign `{opname}`')
+            v, ty = tr.tr(st.value)
+            if ty != ('enum', 'S4OperationKind'):
+                raise U('learn_spn: a cascade arm does not assign an OperationKind member')
+            return v
+        if not last:
+            raise U('learn_spn: the cascade has no final else')
+        out = ''
+        for test, stmts in arms:
+            out += f'if {tr.as_bool(tr.tr(test))} then {arm_value(stmts)}\n  else '
+        out += arm_value(last)
+        inductive = ('/-- `learnspn.OperationKind` (Enum): the members in declaration order -/\n'
+                     'inductive S4OperationKind where\n' + '\n'.join(f'  | {m}' for m, _ in members) + '\nderiving DecidableEq, Repr\n'
+                     f'def S4OperationKind.values : List (S4OperationKind × String × Int) := [{", ".join(f"(.{m}, {T.lean_str(m)}, {v})" for m, v in members)}]')
+        return (inductive + '\n'
+                '/-- `learn_spn`: the selection cascade executed after `task = tasks.popleft()`; shape = `task.data.shape`, zeroVar = the mask '
+                '`np.isclose(np.var(task.data, axis=S4zeroVarAxis), …)` of the uninformative features (one entry per column) -/\n'
+                f'def S4selectOp {{N D S : Type}} (task : S3Task N D S) (shape : Int × Int) (zeroVar : List Bool) (min_rows_slice min_cols_slice : Int) : S4OperationKind :=\n'
+                f'  let {T.lid(a)} := shape.1;\n  let {T.lid(b)} := shape.2;\n  {out}\n'
+                '/-- … the reduction the mask is computed from, and its axis (0 = one value per column) -/\n'
+                f'def S4zeroVarReduction : String := {T.lean_str(f)}\n'
+                f'def S4zeroVarAxis : Option Int := {T.lean_opt_int(axis)}')
+    const4('learnspn.select_op', select_op)
+
+    def zero_var_test():
+        fn, params, task, pre, opname = select_parts()
+        zm = [s for s in pre if isinstance(s, ast.Assign) and isinstance(s.value, ast.Call) and (T.dotted_name(s.value.func) or '') == 'np.isclose']
+        zm = T.the(zm, 'learn_spn: zero-variance mask')
+        call = zm.value
+        tr = T.Tr(syms={ast.unparse(call.args[0]): 'v'})
+        return ('/-- `learn_spn`: a column is uninformative iff `np.isclose(v, 0.0)` holds for its variance `v` -/\n'
+                f'def S4zeroVarTest (v : F) : Prop := {T.cmp_guard(call, tr)}')
+    formula4('learnspn.zero_var_test', zero_var_test)
+
+    # ---- (b) C12 / C02: utils/graph.py — compute_bfs_ordering as data (queue, popleft, extend children) -------------------
+    graph = T.parse_file(repo, 'deeprob/utils/graph.py')
+    TREE_NODE = {'get_id': ('getId', 'item'), 'is_leaf': ('isLeaf', 'bool'), 'get_children': ('getChildren', ('list', 'obj'))}
+
+    def method_hook(methods, objty='obj'):
+        """`obj.m()` for the listed argument-less methods -> `(m obj)`"""
+        def h(tr, call):
+            if isinstance(call.func, ast.Attribute) and call.func.attr in methods and not call.args and not call.keywords:
+                o_, ty = tr.tr(call.func.value)
+                if ty == objty:
+                    f, rty = methods[call.func.attr]
+                    return f'({f} {o_})', rty
+            return None
+        return h
+
+    class TrM(T.TrZ4):
+        """TrZ4 with argument-less method calls on opaque objects (`hooks`: list of functions (tr, call) -> value or None)"""
+        hooks = ()
+        def child(self, **bind):
+            sub = TrM(self.env, None, self.attrs, self.funcs, self.transparent, self.enums)
+            sub.syms = self.syms
+            sub.hooks = self.hooks
+            sub.env.update(bind)
+            return sub
+        def tr(self, e):
+            if isinstance(e, ast.Call) and txt(e) not in self.syms:
+                for h in self.hooks:
+                    r = h(self, e)
+                    if r is not None:
+                        return r
+            return T.TrZ4.tr(self, e)
+
+    def bfs_ordering():
+        q = 'compute_bfs_ordering'
+        fn = T.find_func(graph, q)
+        a = args_of(fn, ('tree',), q)
+        stmts = nodoc(fn.body)
+        loop = T.the([s for s in stmts if isinstance(s, ast.While)], f'{q}: while loop')
+        k = stmts.index(loop)
+        pre = stmts[:k]
+        if len(pre) != 3:
+            raise U(f'{q}: expected (root, ordering, queue) before the loop')
+        r0, o0, q0 = pre
+        if not (isinstance(r0, ast.Assign) and isinstance(r0.targets[0], ast.Name) and txt(r0.value) == f'build_tree_structure({a[0]})'):
+            raise U(f'{q}: the root is not build_tree_structure(tree)')
+        rootn = r0.targets[0].id
+        if not (isinstance(o0, ast.Assign) and isinstance(o0.targets[0], ast.Name) and txt(o0.value) in ('list()', '[]')):
+            raise U(f'{q}: the ordering does not start empty')
+        ordn = o0.targets[0].id
+        if not (isinstance(q0, ast.Assign) and isinstance(q0.targets[0], ast.Name) and txt(q0.value) in (f'deque([{rootn}])', f'[{rootn}]')):
+            raise U(f'{q}: the queue does not start as [root]')
+        qn = q0.targets[0].id
+        if txt(loop.test) != qn:
+            raise U(f'{q}: the loop is not `while <queue>:`')
+        body = nodoc(loop.body)
+        if not (body and isinstance(body[0], ast.Assign) and isinstance(body[0].targets[0], ast.Name)
+                and txt(body[0].value) in (f'{qn}.popleft()', f'{qn}.pop(0)', f'{qn}.pop()')):
+            raise U(f'{q}: the loop does not start by taking a node from the queue')
+        pop = txt(body[0].value)[len(qn) + 1:]
+        nd = body[0].targets[0].id
+        tr = TrM(env={nd: ('node', 'obj'), qn: ('queue', ('list', 'obj')), ordn: ('ordering', ('list', 'item'))})
+        tr.hooks = (method_hook(TREE_NODE),)
+        ex = T.Exec4(q)
+        text, tys = ex.run(tr, body[1:], [qn, ordn], in_loop=True)
+        if tys != [('list', 'obj'), ('list', 'item')]:
+            raise U(f'{q}: the loop does not leave (queue of nodes, list of ids)')
+        # what is returned: the ordering (as a list, or as an array of the tree's dtype)
+        rets = [txt(r) for r in T.returns(fn)]
+        if sorted(rets) != sorted([ordn, f'np.array({ordn},dtype={a[0]}.dtype)']):
+            raise U(f'{q}: does not return the ordering (list / array of the same entries): {rets}')
+        return ('/-- `graph.compute_bfs_ordering`: one iteration of `while nodes_queue:` after `node = nodes_queue.<S4bfsPop>` (`queue` = the rest of '
+                'the queue); the loop starts from `([root], [])` with `root = build_tree_structure(tree)` and the ordering is returned -/\n'
+                'def S4bfsStep {N : Type} (getId : N → Nat) (isLeaf : N → Bool) (getChildren : N → List N) (node : N) (queue : List N) '
+                f'(ordering : List Nat) : List N × List Nat :=\n  {text}\n'
+                f'def S4bfsPop : String := {T.lean_str(pop)}')
+    const4('graph.compute_bfs_ordering', bfs_ordering)
+
+    # ---- (b) C02 / C12: BinaryCLT.log_likelihood — the vectorised complete-evidence path and the NaN mask split --------------
+    cltree = T.parse_file(repo, 'deeprob/spn/structure/cltree.py')
+
+    def np_hook(selfname):
+        """NumPy idioms of cltree.py read on ONE row of the batch: the row `x` is a list of data entries ('optval', none = NaN);
+        `self.tree` a list of integers; `self.params` an opaque (N, 2, 2) table read by index triples"""
+        def h(tr, e):
+            nm = T.dotted_name(e.func) or ''
+            kws = {k.arg: k.value for k in e.keywords}
+            if nm == 'np.arange' and len(e.args) == 1 and not kws:
+                return f'(Py.arange 0 {tr.as_int(tr.tr(e.args[0]))} 1)', ('list', 'int')
+            if nm == 'np.isnan' and len(e.args) == 1 and not kws:
+                v = tr.tr(e.args[0])
+                if v[1] != ('list', 'optval'):
+                    raise U('np.isnan of a value that is not a data row: ' + ast.unparse(e))
+                return f'({v[0]}.map Py3.isnan)', ('list', 'bool')
+            if nm == 'np.any' and len(e.args) == 1 and set(kws) == {'axis'} and int(T.const_value(kws['axis'])) == 1:
+                v = tr.tr(e.args[0])
+                if v[1] != ('list', 'bool'):
+                    raise U('np.any(…, axis=1) of a value that is not a Boolean row: ' + ast.unparse(e))
+                return f'({v[0]}.any (fun b => b))', 'bool'
+            if nm == 'np.sum' and len(e.args) == 1 and set(kws) <= {'axis', 'keepdims'} and 'axis' in kws and int(T.const_value(kws['axis'])) == 1:
+                v = tr.tr(e.args[0])
+                if v[1] != ('list', 'num'):
+                    raise U('np.sum(…, axis=1) of a value that is not a row of numbers: ' + ast.unparse(e))
+                return f'(Py4.sum {v[0]})', 'num'
+            if nm == 'np.expand_dims' and len(e.args) == 1 and set(kws) == {'axis'} and int(T.const_value(kws['axis'])) == 1:
+                return tr.tr(e.args[0])
+            if nm == 'np.copy' and len(e.args) == 1 and not kws:
+                return tr.tr(e.args[0])
+            if isinstance(e.func, ast.Attribute) and e.func.attr == 'astype' and e.args and (T.dotted_name(e.args[0]) or '') == 'np.int64' \
+                    and set(kws) <= {'copy'}:
+                v = tr.tr(e.func.value)
+                if v[1] == ('list', 'optval'):
+                    return f'({v[0]}.map (fun v => ((Py3.val v : Nat) : Int)))', ('list', 'int')
+                if v[1] == 'optval':
+                    return f'((Py3.val {v[0]} : Nat) : Int)', 'int'
+                raise U('astype(np.int64) of a value that is not data: ' + ast.unparse(e))
+            return None
+        return h
+
+    class TrC(TrM):
+        """TrM plus the subscripts of cltree.py on one row"""
+        selfname = 'self'
+        def child(self, **bind):
+            sub = TrC(self.env, None, self.attrs, self.funcs, self.transparent, self.enums)
+            sub.syms = self.syms
+            sub.hooks = self.hooks
+            sub.selfname = self.selfname
+            sub.env.update(bind)
+            return sub
+        def tr(self, e):
+            if txt(e) in self.syms:
+                return self.syms[txt(e)]
+            if isinstance(e, ast.Subscript):
+                full = lambda s_: isinstance(s_, ast.Slice) and s_.lower is None and s_.upper is None and s_.step is None
+                sl = e.slice
+                if isinstance(sl, ast.Tuple) and len(sl.elts) == 2 and full(sl.elts[0]):
+                    base = self.tr(e.value)          # x[:, idx]: the columns idx of the row
+                    if base[1] == ('list', 'optval'):
+                        ix = self.tr(sl.elts[1])
+                        if ix[1] == ('list', 'int'):
+                            return f'({ix[0]}.map (fun j => Py4.getI {base[0]} j none))', ('list', 'optval')
+                        if ix[1] in ('int', 'item'):
+                            return f'(Py4.getI {base[0]} {self.as_int(ix)} none)', 'optval'
+                    if base[1] == ('list', 'bool'):
+                        ix = self.tr(sl.elts[1])
+                        if ix[1] in ('int', 'item'):
+                            return f'(Py4.getI {base[0]} {self.as_int(ix)} false)', 'bool'
+                if txt(e.value) == f'{self.selfname}.params' and isinstance(sl, ast.Tuple) and len(sl.elts) == 3:
+                    ix = [self.tr(x) for x in sl.elts]
+                    if all(t == ('list', 'int') for _, t in ix):
+                        return f'(Py4.zipWith3 params {ix[0][0]} {ix[1][0]} {ix[2][0]})', ('list', 'num')
+                if txt(e.value) == f'{self.selfname}.tree':
+                    ix = self.tr(sl)
+                    if ix[1] in ('int', 'item'):
+                        return f'(Py4.getI tree {self.as_int(ix)} 0)', 'int'
+                if isinstance(sl, ast.Name):
+                    base, ix = self.tr(e.value), self.tr(sl)
+                    if ix[1] == 'bool' and base[1] in (('list', 'optval'), ('list', 'bool')):
+                        return base                   # x[row mask]: the row itself (the mask is checked at the store)
+            return TrM.tr(self, e)
+
+    def clt_loglik():
+        q = 'BinaryCLT.log_likelihood'
+        fn = T.find_func(cltree, q)
+        a = args_of(fn, ('self', 'x'), q)
+        S, X = a
+        guard = {}                       # local name -> row masks under which it was read
+        def names(e):
+            return {n.id for n in ast.walk(e) if isinstance(n, ast.Name)}
+        def hook(tr, st):
+            if isinstance(st, ast.Assign) and len(st.targets) == 1:
+                tg, v = st.targets[0], st.value
+                if isinstance(tg, ast.Tuple) and txt(v) == f'{X}.shape' and len(tg.elts) == 2 and all(isinstance(t_, ast.Name) for t_ in tg.elts):
+                    ns, nf = [t_.id for t_ in tg.elts]
+                    return [(T.lid(nf), nf, f'((x.length : Nat) : Int)', 'int'), (T.lid(ns), ns, 'nRows', 'nrows')]
+                if isinstance(tg, ast.Name):
+                    g = set()
+                    for n in names(v):
+                        g |= guard.get(n, set())
+                    if isinstance(v, ast.Subscript) and isinstance(v.slice, ast.Name) and tr.env.get(v.slice.id, (None, None))[1] == 'bool' \
+                            and not v.slice.id.startswith('__'):
+                        g = g | {v.slice.id}
+                    guard[tg.id] = g
+                    if txt(v).startswith('np.empty(') and isinstance(v, ast.Call) and v.args and tr.tr(v.args[0])[1] == 'nrows':
+                        return [(T.lid(tg.id), tg.id, 'none', ('opt', 'num'))]
+                if isinstance(tg, ast.Subscript) and isinstance(tg.value, ast.Name) and isinstance(tg.slice, ast.Name):
+                    old, m = tr.tr(tg.value), tr.tr(tg.slice)
+                    if old[1] == ('opt', 'num') and m[1] == 'bool':
+                        g = set()
+                        for n in names(v):
+                            g |= guard.get(n, set())
+                        if not g <= {tg.slice.id}:
+                            raise U(f'{q}: `{ast.unparse(st)}` uses rows selected by {sorted(g)}')
+                        val = tr.tr(v)
+                        if val[1] != 'num':
+                            raise U(f'{q}: `{ast.unparse(st)}` does not store one number per row')
+                        return [(T.lid(tg.value.id), tg.value.id, f'if {m[0]} then some {val[0]} else {old[0]}', ('opt', 'num'))]
+            return None
+        def mp(tr, e):
+            if txt(e.func) == f'{S}.message_passing':
+                kws = {k.arg: k.value for k in e.keywords}
+                if len(e.args) != 2 or set(kws) != {'return_lls', 'reduce'}:
+                    raise U(f'{q}: message_passing is not called as (rows, mask, return_lls=…, reduce=…)')
+                z, m = tr.tr(e.args[0]), tr.tr(e.args[1])
+                if z[1] != ('list', 'optval') or m[1] != ('list', 'bool'):
+                    raise U(f'{q}: message_passing is not applied to (data rows, Boolean rows)')
+                rl, rd = tr.tr(kws['return_lls']), tr.tr(kws['reduce'])
+                return f'(messagePassing {z[0]} {m[0]} {rl[0]} {rd[0]})', 'num'
+            return None
+        tr = TrC(env={X: ('x', ('list', 'optval'))}, syms={f'{S}.tree': ('tree', ('list', 'int'))})
+        tr.selfname = S
+        tr.hooks = (np_hook(S), mp)
+        # the batch-level test `if np.any(<row-level mask>)`: a Boolean of the whole batch
+        stmts = nodoc(fn.body)
+        tests = [s for s in stmts if isinstance(s, ast.If)]
+        t0 = T.the(tests, f'{q}: batch-level test')
+        if not (isinstance(t0.test, ast.Call) and (T.dotted_name(t0.test.func) or '') == 'np.any' and len(t0.test.args) == 1
+                and isinstance(t0.test.args[0], ast.Name) and not t0.test.keywords):
+            raise U(f'{q}: the batch-level test is not np.any(<mask of the rows with missing values>)')
+        rowmask = t0.test.args[0].id
+        tr.syms[txt(t0.test)] = ('batchAny', 'bool')
+        def coerce(term, ty):
+            if ty == 'num':
+                return f'some {term}', ('opt', 'num')
+            return term, ty
+        ex = T.Exec4(q, stmt_hook=hook, ret_coerce=coerce)
+        text, tys = ex.run(tr, stmts, T.RETURNED)
+        if tys != [('opt', 'num')]:
+            raise U(f'{q}: does not return one number per row')
+        return ('/-- `BinaryCLT.log_likelihood` on ONE row `x` of the batch (`none` = NaN): params = `self.params` read by index triples, tree = '
+                f'`self.tree`, `messagePassing z mask return_lls reduce` = `self.message_passing` on that row, batchAny = `np.any({rowmask})` (some row of '
+                'the batch has a missing value), nRows = `n_samples`.  `none` = the entry of `np.empty` is never written -/\n'
+                'def S4cltLogLikelihood {α : Type} [Zero α] [Add α] (params : Int → Int → Int → α) (tree : List Int)\n'
+                '    (messagePassing : List (Option Nat) → List Bool → Bool → String → α) (batchAny : Bool) (nRows : Nat) (x : List (Option Nat)) : Option α :=\n'
+                f'  {text}')
+    const4('cltree.log_likelihood', clt_loglik)
+
+    # ---- (b) C06: BinaryCLT.mpe — max-product messages, root decode, downward decode in BFS order ----------------------------
+    class TrC2(TrC):
+        """TrC plus the reads of `self.params[i, l]` / `messages[i, mask]` (the two values of a binary variable), element-wise `+`
+        of two such vectors, `np.argmax(·, axis=1)`"""
+        msgs = None
+        def child(self, **bind):
+            sub = TrC2(self.env, None, self.attrs, self.funcs, self.transparent, self.enums)
+            sub.syms = self.syms
+            sub.hooks = self.hooks
+            sub.selfname = self.selfname
+            sub.msgs = self.msgs
+            sub.env.update(bind)
+            return sub
+        def tr(self, e):
+            if txt(e) in self.syms:
+                return self.syms[txt(e)]
+            if isinstance(e, ast.Subscript) and isinstance(e.slice, ast.Tuple) and len(e.slice.elts) == 2:
+                i0, i1 = e.slice.elts
+                if txt(e.value) == f'{self.selfname}.params':
+                    a_, b_ = self.tr(i0), self.tr(i1)
+                    if a_[1] in ('int', 'item') and b_[1] in ('int', 'item'):
+                        return f'(Py4.vec2 (params {self.as_int(a_)} {self.as_int(b_)}))', ('list', 'num')
+                if isinstance(e.value, ast.Name) and self.env.get(e.value.id, (None, None))[1] == 'msgs':
+                    a_, m_ = self.tr(i0), self.tr(i1)
+                    if a_[1] in ('int', 'item') and m_[1] == 'bool':
+                        return f'({self.env[e.value.id][0]} {self.as_int(a_)})', ('list', 'num')
+                base = self.tr(e.value)
+                if base[1] == ('list', 'optval'):
+                    m_ = self.tr(i0)
+                    if m_[1] == 'bool':                     # x[row mask, k]: entry k of the row
+                        k_ = self.tr(i1)
+                        if k_[1] in ('int', 'item'):
+                            return f'(Py4.getI {base[0]} {self.as_int(k_)} none)', 'optval'
+            if isinstance(e, ast.BinOp) and isinstance(e.op, ast.Add):
+                a_, b_ = self.tr(e.left), self.tr(e.right)
+                if a_[1] == ('list', 'num') and b_[1] == ('list', 'num'):
+                    return f'(List.zipWith (fun a b => a + b) {a_[0]} {b_[0]})', ('list', 'num')
+            if isinstance(e, ast.Call) and (T.dotted_name(e.func) or '') == 'np.argmax' and len(e.args) == 1 \
+                    and [(k.arg, int(T.const_value(k.value))) for k in e.keywords] == [('axis', 1)]:
+                v = self.tr(e.args[0])
+                if v[1] == ('list', 'num'):
+                    return f'(Py4.argmax {v[0]})', 'item'
+            return TrC.tr(self, e)
+
+    def clt_mpe():
+        q = 'BinaryCLT.mpe'
+        fn = T.find_func(cltree, q)
+        a = args_of(fn, ('self', 'x'), q)
+        S, X = a
+        def hook(tr, st):
+            if isinstance(st, ast.Assign) and len(st.targets) == 1:
+                tg, v = st.targets[0], st.value
+                if isinstance(tg, ast.Name) and isinstance(v, ast.Call) and txt(v.func) == f'{S}.message_passing':
+                    kws = {k.arg: k.value for k in v.keywords}
+                    if len(v.args) != 2 or set(kws) != {'return_lls', 'reduce'}:
+                        raise U(f'{q}: message_passing is not called as (rows, mask, return_lls=…, reduce=…)')
+                    z, m = tr.tr(v.args[0]), tr.tr(v.args[1])
+                    rl, rd = tr.tr(kws['return_lls']), tr.tr(kws['reduce'])
+                    if z[1] != ('list', 'optval') or m[1] != ('list', 'bool') or rl[0] != 'false':
+                        raise U(f'{q}: the messages are not message_passing(x, <mask>, return_lls=False, …)')
+                    return [(T.lid(tg.id), tg.id, f'(messagePassing {z[0]} {m[0]} {rl[0]} {rd[0]})', 'msgs')]
+                if isinstance(tg, ast.Subscript) and isinstance(tg.slice, ast.Tuple) and len(tg.slice.elts) == 2 and isinstance(tg.value, ast.Name):
+                    old = tr.tr(tg.value)
+                    m, k = tr.tr(tg.slice.elts[0]), tr.tr(tg.slice.elts[1])
+                    val = tr.tr(v)
+                    if old[1] == ('list', 'optval') and m[1] == 'bool' and k[1] in ('int', 'item') and val[1] == 'item':
+                        return [(T.lid(tg.value.id), tg.value.id,
+                                 f'if {m[0]} then Py4.setI {old[0]} ({tr.as_int(k)}).toNat (some {val[0]}) else {old[0]}', ('list', 'optval'))]
+                    raise U(f'{q}: store not understood: ' + ast.unparse(st))
+            return None
+        tr = TrC2(env={X: ('x', ('list', 'optval'))},
+                  syms={f'{S}.tree': ('tree', ('list', 'int')), f'{S}.bfs': ('bfs', ('list', 'int')), f'{S}.root': ('root', 'int')})
+        tr.selfname = S
+        tr.hooks = (np_hook(S),)
+        ex = T.Exec4(q, stmt_hook=hook)
+        text, tys = ex.run(tr, nodoc(fn.body), T.RETURNED)
+        if tys != [('list', 'optval')]:
+            raise U(f'{q}: does not return the completed rows')
+        return ('/-- `BinaryCLT.mpe` on ONE row `x` (`none` = NaN): params = `self.params` read by index triples, root / bfs / tree = `self.root`, '
+                '`self.bfs`, `self.tree`; `messagePassing x mask return_lls reduce i` = the two entries `messages[i, row, :]` returned by '
+                '`self.message_passing` -/\n'
+                'def S4cltMpe {α : Type} [Add α] [LT α] [DecidableLT α] (params : Int → Int → Int → α) (root : Int) (bfs tree : List Int)\n'
+                '    (messagePassing : List (Option Nat) → List Bool → Bool → String → Int → List α) (x : List (Option Nat)) : List (Option Nat) :=\n'
+                f'  {text}')
+    const4('cltree.mpe', clt_mpe)
+
+    # ---- (c) C10: structure.marginalize — the body of the pass (per node kind), the final relabelling and prune -------------------
+    structure = T.parse_file(repo, 'deeprob/spn/algorithms/structure.py')
+    NODE4 = {'id': ('nid', 'item'), 'children': ('children', ('list', 'obj')), 'scope': ('scope', ('list', 'item'))}
+    CLASSES = {'Leaf': 'isLeaf', 'BinaryCLT': 'isClt', 'Product': 'isProduct', 'Sum': 'isSum'}
+
+    def marg_hook(mapname):
+        def h(tr, e):
+            nm = T.dotted_name(e.func) or ''
+            if nm == 'isinstance' and len(e.args) == 2 and isinstance(e.args[1], ast.Name) and e.args[1].id in CLASSES:
+                o_, ty = tr.tr(e.args[0])
+                if ty == 'obj':
+                    return f'({CLASSES[e.args[1].id]} {o_})', 'bool'
+            # list(filter(lambda v: v is not None, map(lambda u: nodes_map[u.id], xs)))
+            if nm == 'list' and len(e.args) == 1 and isinstance(e.args[0], ast.Call) and (T.dotted_name(e.args[0].func) or '') == 'filter':
+                f = e.args[0]
+                if len(f.args) == 2 and isinstance(f.args[0], ast.Lambda) and isinstance(f.args[1], ast.Call) and (T.dotted_name(f.args[1].func) or '') == 'map':
+                    v = f.args[0].args.args[0].arg
+                    m = f.args[1]
+                    if txt(f.args[0].body) == f'{v}isnotNone'.replace(' ', '') or ast.unparse(f.args[0].body) == f'{v} is not None':
+                        if len(m.args) == 2 and isinstance(m.args[0], ast.Lambda):
+                            u = m.args[0].args.args[0].arg
+                            if txt(m.args[0].body) == f'{mapname}[{u}.id]':
+                                xs, elty = tr.seq(tr.tr(m.args[1]))
+                                if elty == 'obj':
+                                    return f'({xs}.filterMap (fun {T.lid(u)} => nodesMap (nid {T.lid(u)})))', ('list', 'obj')
+            if isinstance(e.func, ast.Attribute) and e.func.attr == 'intersection' and len(e.args) == 1 and not e.keywords:
+                a_, b_ = tr.tr(e.func.value), tr.tr(e.args[0])
+                if a_[1] == ('set', 'item') and isinstance(b_[1], tuple) and b_[1][1] == 'item':
+                    return f'({a_[0]}.filter (fun v => {b_[0]}.contains v))', ('set', 'item')
+            return None
+        return h
+
+    class TrIn(TrM):
+        """TrM plus `v in xs` / `v not in xs` on lists / sets of items"""
+        def child(self, **bind):
+            sub = TrIn(self.env, None, self.attrs, self.funcs, self.transparent, self.enums)
+            sub.syms = self.syms
+            sub.hooks = self.hooks
+            sub.env.update(bind)
+            return sub
+        def tr(self, e):
+            if isinstance(e, ast.Compare) and len(e.ops) == 1 and isinstance(e.ops[0], (ast.In, ast.NotIn)):
+                a_, b_ = self.tr(e.left), self.tr(e.comparators[0])
+                if a_[1] in ('item',) and isinstance(b_[1], tuple) and b_[1][0] in ('list', 'set') and b_[1][1] == 'item':
+                    t_ = f'({b_[0]}.contains {a_[0]})'
+                    return (t_ if isinstance(e.ops[0], ast.In) else f'(!{t_})'), 'bool'
+                raise U('membership test not understood: ' + ast.unparse(e))
+            return TrM.tr(self, e)
+
+    def marg_body():
+        q = 'marginalize'
+        fn = T.find_func(structure, q)
+        a = args_of(fn, ('root', 'keep_scope', 'copy'), q)
+        R, K, C = a
+        stmts = nodoc(fn.body)
+        # the leading argument guards (first wave fragment `structure.marginalize.guards`) and the set of kept variables
+        k0 = 0
+        setname = None
+        while k0 < len(stmts) and ((isinstance(stmts[k0], ast.If) and len(stmts[k0].body) == 1 and isinstance(stmts[k0].body[0], ast.Raise))
+                                   or (isinstance(stmts[k0], ast.Assign) and txt(stmts[k0].value) == f'set({K})')):
+            if isinstance(stmts[k0], ast.Assign):
+                setname = stmts[k0].targets[0].id
+            k0 += 1
+        rest = stmts[k0:]
+        kinds = []
+        loop = None
+        for st in rest:
+            t_ = txt(st)
+            if isinstance(st, ast.If) and t_ == f'if{C}:{R}=deepcopy({R})':
+                kinds.append('copy')
+            elif isinstance(st, ast.Expr) and t_ == f'check_spn({R},labeled=True,smooth=True,decomposable=True)':
+                kinds.append('check')
+            elif isinstance(st, ast.Assign) and t_ == f'nodes=topological_order({R})':
+                kinds.append('order')
+            elif isinstance(st, ast.If) and txt(st.test) == 'nodesisNone' and len(st.body) == 1 and isinstance(st.body[0], ast.Raise):
+                kinds.append('dag')
+            elif isinstance(st, ast.Assign) and isinstance(st.targets[0], ast.Name) and txt(st.value) == 'dict(map(lambdan:(n.id,n),nodes))':
+                kinds.append('map')
+                mapname = st.targets[0].id
+            elif isinstance(st, ast.For) and txt(st.iter) == 'reversed(nodes)' and isinstance(st.target, ast.Name):
+                kinds.append('loop')
+                loop = st
+            elif isinstance(st, ast.Assign) and loop is not None and t_ == f'{R}=assign_ids({mapname}[{R}.id])':
+                kinds.append('assign_ids')
+            elif isinstance(st, ast.Return) and t_ == f'returnprune({R},copy=False)':
+                kinds.append('prune')
+            else:
+                raise U(f'{q}: statement not understood: ' + ast.unparse(st).splitlines()[0])
+        want = ['copy', 'check', 'order', 'dag', 'map', 'loop', 'assign_ids', 'prune']
+        if kinds != want:
+            raise U(f'{q}: the steps are {kinds}, expected {want}')
+        nd = loop.target.id
+        slot = f'{mapname}[{nd}.id]'
+        env = {nd: ('node', 'obj'), K: ('keep_scope', ('list', 'item'))}
+        if setname:
+            env[setname] = ('keep_scope', ('set', 'item'))
+        tr0 = TrIn(env=env, attrs=NODE4)
+        tr0.hooks = (marg_hook(mapname), method_hook({}))
+
+        def eff(tr, ss):
+            """the effect of a block on `nodes_map[node.id]` as a term of `S4MargOut N`"""
+            ss = [s_ for s_ in ss if not isinstance(s_, ast.Continue)]
+            if not ss:
+                raise U(f'{q}: a path through the loop body has no effect on {slot}')
+            st, more = ss[0], ss[1:]
+            if isinstance(st, ast.Assign) and isinstance(st.targets[0], ast.Name):
+                v, ty = tr.tr(st.value)
+                nm = st.targets[0].id
+                return f'let {T.lid(nm)} := {v};\n  {eff(tr.child(**{nm: (T.lid(nm), ty)}), more)}'
+            if isinstance(st, ast.If):
+                arms, last = T.elif_chain(st)
+                # `if isinstance(node, Leaf): …; continue` — what follows is the else branch
+                if not last and more and isinstance(st.body[-1], ast.Continue):
+                    last, more = more, []
+                if more:
+                    raise U(f'{q}: statements after a conditional that decides {slot}')
+                if not last:
+                    raise U(f'{q}: a conditional without else decides {slot}')
+                out_ = ''
+                for test, body in arms:
+                    out_ += f'if {tr.as_bool(tr.tr(test))} then ({eff(tr, body)})\n  else '
+                return out_ + f'({eff(tr, last)})'
+            if isinstance(st, ast.With) and len(st.items) == 1 and txt(st.items[0].context_expr) == 'ContextState(check_spn=False)':
+                if more:
+                    raise U(f'{q}: statements after the ContextState block')
+                return eff(tr, st.body)
+            if isinstance(st, ast.Raise):
+                if more:
+                    raise U(f'{q}: statements after a raise')
+                exc = st.exc.func if isinstance(st.exc, ast.Call) else st.exc
+                return f'.raises {T.lean_str(ast.unparse(exc))}'
+            if isinstance(st, ast.Assign) and txt(st.targets[0]) == slot:
+                if more:
+                    raise U(f'{q}: statements after the assignment of {slot}')
+                return value(tr, st.value)
+            if isinstance(st, ast.Assign) and txt(st.targets[0]) in (f'{slot}.scope', f'{slot}.children'):
+                if len(more) != 1 or not isinstance(more[0], ast.Assign) or {txt(st.targets[0]), txt(more[0].targets[0])} != {f'{slot}.scope', f'{slot}.children'}:
+                    raise U(f'{q}: the stores into {slot}.scope / .children do not come as a pair')
+                by = {txt(x.targets[0]): x.value for x in (st, more[0])}
+                sc, sty = tr.tr(by[f'{slot}.scope'])
+                ch, cty = tr.tr(by[f'{slot}.children'])
+                if sty != ('list', 'item') or cty != ('list', 'obj'):
+                    raise U(f'{q}: {slot}.scope / .children do not receive (a scope, a list of nodes)')
+                return f'.rewrite {sc} {ch}'
+            raise U(f'{q}: statement of the loop body not understood: ' + ast.unparse(st).splitlines()[0])
+
+        def value(tr, v):
+            if isinstance(v, ast.Constant) and v.value is None:
+                return '.drop'
+            if isinstance(v, ast.IfExp):
+                return f'if {tr.as_bool(tr.tr(v.test))} then {value(tr, v.body)} else {value(tr, v.orelse)}'
+            if isinstance(v, ast.Call) and (T.dotted_name(v.func) or '') == q:
+                kw = {k.arg: txt(k.value) for k in v.keywords}
+                if len(v.args) == 2 and txt(v.args[0]) == f'{nd}.to_pc()' and kw == {'copy': 'False'}:
+                    sc, sty = tr.tr(v.args[1])
+                    if isinstance(sty, tuple) and sty[1] == 'item':
+                        return f'.viaPc {sc}'
+                raise U(f'{q}: the recursive call is not marginalize(node.to_pc(), <scope>, copy=False)')
+            t_, ty = tr.tr(v)
+            if ty != 'obj':
+                raise U(f'{q}: {slot} receives a value that is not a node: ' + ast.unparse(v))
+            return f'.replace {t_}'
+
+        body = eff(tr0, nodoc(loop.body))
+        return ('/-- what one iteration of the pass of `structure.marginalize` does with `nodes_map[node.id]`: `drop` = `None`; `replace n` = the object '
+                '`n`; `rewrite scope children` = the node object itself with `.scope` and `.children` overwritten; `viaPc s` = '
+                '`marginalize(node.to_pc(), s, copy=False)` (checks disabled); `raises e` -/\n'
+                'inductive S4MargOut (N : Type) where\n  | drop\n  | replace (n : N)\n  | rewrite (scope : List Nat) (children : List N)\n'
+                '  | viaPc (scope : List Nat)\n  | raises (exc : String)\nderiving DecidableEq, Repr\n'
+                '/-- `structure.marginalize`: the body of `for node in reversed(nodes)` (`nodes = topological_order(root)`, `nodes_map` starts as the '
+                'identity `id ↦ node`); nodesMap = the current `nodes_map` by id (`none` = `None`), `isLeaf` … = the `isinstance` tests -/\n'
+                'def S4margStep {N : Type} [Inhabited N] (isLeaf isClt isProduct isSum : N → Bool) (nid : N → Nat) (scope : N → List Nat) '
+                '(children : N → List N)\n    (nodesMap : Nat → Option N) (keep_scope : List Nat) (node : N) : S4MargOut N :=\n'
+                f'  {body}\n'
+                '/-- … the steps around the loop, in order -/\n'
+                f'def S4margSteps : List String := {T.lean_list([T.lean_str(x) for x in kinds])}')
+    const4('structure.marginalize.body', marg_body)
+
+    # ---- (d) C11: statistics.compute_mutual_information, BinaryCLT.compute_clt_parameters, BinaryCLT.fit ---------------------------
+    statistics = T.parse_file(repo, 'deeprob/utils/statistics.py')
+
+    def canon_locals(fn, node, keep=()):
+        """source text of `node` with the local variables of `fn` (names stored anywhere in it, parameters excluded) renamed
+        v0, v1, … in the order of their first store — insensitive to renamings of locals"""
+        params = {a.arg for a in fn.args.args + fn.args.kwonlyargs} | set(keep)
+        order = []
+        for n in ast.walk(fn):
+            pass
+        stores = sorted([(n.lineno, n.col_offset, n.id) for n in ast.walk(fn) if isinstance(n, ast.Name) and isinstance(n.ctx, ast.Store)])
+        for _, _, nm in stores:
+            if nm not in params and nm not in order:
+                order.append(nm)
+        ren = {nm: f'v{k}' for k, nm in enumerate(order)}
+        class R(ast.NodeTransformer):
+            def visit_Name(self, n):
+                return ast.copy_location(ast.Name(id=ren.get(n.id, n.id), ctx=n.ctx), n)
+        import copy as _copy
+        return ast.unparse(R().visit(_copy.deepcopy(node)))
+
+    def int_list(e, what):
+        if not isinstance(e, (ast.List, ast.Tuple)):
+            raise U(f'{what}: not a literal sequence')
+        return [int(T.const_value(x)) for x in e.elts]
+
+    def mutual_information():
+        q = 'compute_mutual_information'
+        fn = T.find_func(statistics, q)
+        a = args_of(fn, ('priors', 'joints'), q)
+        P, J = a
+        stmts = nodoc(fn.body)
+        guards = [s for s in stmts if isinstance(s, ast.If) and len(s.body) == 1 and isinstance(s.body[0], ast.Raise)]
+        sh = stmts[0]
+        if not (isinstance(sh, ast.Assign) and isinstance(sh.targets[0], ast.Tuple) and len(sh.targets[0].elts) == 2 and txt(sh.value) == f'{P}.shape'):
+            raise U(f'{q}: the first statement is not `<variables>, <values> = priors.shape`')
+        rest = [s for s in stmts[1:] if s not in guards]
+        if len(rest) != 4 or not isinstance(rest[0], ast.Assign) or not isinstance(rest[1], ast.With) or not isinstance(rest[3], ast.Return):
+            raise U(f'{q}: the body is not (shape, guards, outers, `with np.errstate`: sum, fill_diagonal, return)')
+        ou, wi, fd, rt = rest
+        on = ou.targets[0].id
+        v = ou.value
+        if not (isinstance(v, ast.Call) and isinstance(v.func, ast.Attribute) and v.func.attr == 'transpose' and len(v.args) == 1
+                and isinstance(v.func.value, ast.Call) and (T.dotted_name(v.func.value.func) or '') == 'np.multiply.outer'
+                and [txt(x) for x in v.func.value.args] == [P, P]):
+            raise U(f'{q}: outers is not np.multiply.outer(priors, priors).transpose(<axes>)')
+        perm = int_list(v.args[0], 'transpose axes')
+        if sorted(perm) != [0, 1, 2, 3]:
+            raise U(f'{q}: the transposition is not a permutation of four axes')
+        if not (txt(wi.items[0].context_expr).startswith('np.errstate(') and len(wi.body) == 1 and isinstance(wi.body[0], ast.Assign)):
+            raise U(f'{q}: the sum is not the single statement of a `with np.errstate(…)` block')
+        mi = wi.body[0]
+        mn = mi.targets[0].id
+        c = mi.value
+        if not (isinstance(c, ast.Call) and (T.dotted_name(c.func) or '') == 'np.sum' and len(c.args) == 1
+                and [k.arg for k in c.keywords] == ['axis']):
+            raise U(f'{q}: mutual_info is not np.sum(<terms>, axis=…)')
+        axes = int_list(c.keywords[0].value, 'summed axes')
+        if sorted(axes) != [2, 3]:
+            raise U(f'{q}: the sum is not over the two value axes (2, 3) but {axes}')
+        tr = T.Tr(syms={J: '(joints i j k l)', on: '(outers i j k l)'},
+                  call_hook=lambda t_, call: (f'(E.log {t_.tr(call.args[0])})' if (T.dotted_name(call.func) or '') == 'np.log' and len(call.args) == 1 else None))
+        term = tr.tr(c.args[0])
+        if not (isinstance(fd, ast.Expr) and isinstance(fd.value, ast.Call) and (T.dotted_name(fd.value.func) or '') == 'np.fill_diagonal'
+                and len(fd.value.args) == 2 and txt(fd.value.args[0]) == mn):
+            raise U(f'{q}: the diagonal of mutual_info is not filled')
+        diag = T.q_lean(T.const_value(fd.value.args[1]), 'F')
+        if txt(rt.value) != mn:
+            raise U(f'{q}: does not return mutual_info')
+        return ['/-- `compute_mutual_information`: `outers = np.multiply.outer(priors, priors).transpose(S4miPerm)` entry `[i, j, k, l]` (axis `t` of the '
+                'result is axis `S4miPerm[t]` of the outer product, whose entry `[a, b, c, d]` is `priors[a, b] * priors[c, d]`) -/\n'
+                f'def S4miPerm : List Nat := {T.lean_list([str(x) for x in perm])}\n'
+                'def S4miOuters (priors : Nat → Nat → F) (i j k l : Nat) : F :=\n'
+                '  let src := fun (ax : Nat) => [i, j, k, l].getD (S4miPerm.idxOf ax) 0;\n'
+                '  priors (src 0) (src 1) * priors (src 2) (src 3)',
+                '/-- `compute_mutual_information`: one summand of `np.sum(…, axis=(2, 3))`, and entry `[i, j]` of the returned matrix (`nValues` = '
+                '`priors.shape[1]`; the diagonal is overwritten by `np.fill_diagonal`) -/\n'
+                f'def S4miTerm (priors : Nat → Nat → F) (joints : Nat → Nat → Nat → Nat → F) (i j k l : Nat) : F :=\n'
+                f'  let outers := S4miOuters priors;\n  {term}\n'
+                'def S4mutualInfo (nValues : Nat) (priors : Nat → Nat → F) (joints : Nat → Nat → Nat → Nat → F) (i j : Nat) : F :=\n'
+                f'  if i = j then {diag}\n'
+                '  else Gen.Py4.sum ((List.range nValues).flatMap (fun k => (List.range nValues).map (fun l => S4miTerm E priors joints i j k l)))']
+    formula4('statistics.compute_mutual_information', mutual_information)
+
+    def clt_parameters():
+        q = 'BinaryCLT.compute_clt_parameters'
+        fn = T.find_func(cltree, q)
+        a = args_of(fn, ('bfs', 'tree', 'priors', 'joints'), q)
+        B, TR, P, J = a
+        stmts = nodoc(fn.body)
+        by = {}
+        for st in stmts:
+            if isinstance(st, ast.Assign) and isinstance(st.targets[0], ast.Name):
+                by.setdefault(st.targets[0].id, []).append(st)
+        # root_id = bfs[0]; n_features = len(bfs); vs = np.arange(n_features)
+        roots = [n for n, ss in by.items() if len(ss) == 1 and txt(ss[0].value) == f'{B}[0]']
+        rn = T.the(roots, f'{q}: root_id = bfs[0]')
+        vsn = T.the([n for n, ss in by.items() if len(ss) == 1 and txt(ss[0].value).startswith('np.arange(')], f'{q}: vs = np.arange(…)')
+        nfe = T.the(T.assignments(fn, ast.unparse(by[vsn][0].value.args[0])), 'argument of np.arange')
+        if txt(nfe) != f'len({B})':
+            raise U(f'{q}: vs is not np.arange(len(bfs))')
+        es = [s for s in stmts if isinstance(s, ast.Assign) and isinstance(s.value, ast.Call) and (T.dotted_name(s.value.func) or '') == 'np.einsum']
+        es = T.the(es, f'{q}: einsum')
+        pn = es.targets[0].id
+        c = es.value
+        if len(c.args) != 3 or c.keywords or not (isinstance(c.args[0], ast.Constant) and isinstance(c.args[0].value, str)):
+            raise U(f'{q}: einsum is not called as (spec, A, B)')
+        spec = c.args[0].value.replace(' ', '')
+        ins, out_ = spec.split('->')
+        sa, sb = ins.split(',')
+        if len(out_) != 3 or len(set(out_)) != 3 or set(sa) | set(sb) != set(out_) or len(sa) != 3 or len(sb) != 2:
+            raise U(f'{q}: einsum spec {spec} is not an entry-wise product of a 3-D and a 2-D operand (no summed index)')
+        pos = {ch: ['i', 'l', 'k'][k] for k, ch in enumerate(out_)}       # output entry is named [i, l, k]
+        if txt(c.args[1]) != f'{J}[{vsn},{TR}]':
+            raise U(f'{q}: the first einsum operand is not joints[vs, tree]')
+        if txt(c.args[2]) != f'np.reciprocal({P}[{TR}])':
+            raise U(f'{q}: the second einsum operand is not np.reciprocal(priors[tree])')
+        A = lambda x, y, z: f'joints {x} (tree {x}) {y} {z}'
+        Bt = lambda x, y: f'((1 : F) / priors (tree {x}) {y})'
+        term = f'({A(*[pos[ch] for ch in sa])}) * {Bt(*[pos[ch] for ch in sb])}'
+        k = stmts.index(es)
+        after = stmts[k + 1:]
+        if len(after) != 3:
+            raise U(f'{q}: expected (root row, normalisation, return) after the einsum')
+        rr, nm, rt = after
+        if not (isinstance(rr, ast.Assign) and txt(rr.targets[0]) == f'{pn}[{rn}]' and txt(rr.value) == f'{P}[{rn}]'):
+            raise U(f'{q}: the root rows are not overwritten by params[root_id] = priors[root_id]')
+        if not (isinstance(nm, ast.AugAssign) and isinstance(nm.op, ast.Div) and txt(nm.target) == pn and isinstance(nm.value, ast.Call)
+                and (T.dotted_name(nm.value.func) or '') == 'np.sum' and txt(nm.value.args[0]) == pn):
+            raise U(f'{q}: no normalisation `params /= np.sum(params, …)`')
+        kws = {k_.arg: k_.value for k_ in nm.value.keywords}
+        if set(kws) != {'axis', 'keepdims'} or txt(kws['keepdims']) != 'True':
+            raise U(f'{q}: the normalisation is not np.sum(params, axis=…, keepdims=True)')
+        axis = int(T.const_value(kws['axis']))
+        if axis not in (1, 2):
+            raise U(f'{q}: normalisation along axis {axis}')
+        if txt(rt) != f'return{pn}':
+            raise U(f'{q}: does not return params')
+        den = ('(List.range 2).map (fun k\' => S4cltParamRaw priors joints tree root_id i l k\')' if axis == 2
+               else '(List.range 2).map (fun l\' => S4cltParamRaw priors joints tree root_id i l\' k)')
+        return ['/-- `BinaryCLT.compute_clt_parameters`: entry `[i, l, k]` of `params` before the normalisation: the einsum '
+                f'`{spec}` of `joints[vs, tree]` and `np.reciprocal(priors[tree])`, the rows of `root_id = bfs[0]` overwritten by `priors[root_id]` '
+                '(arrays are read by possibly negative integer indices, as NumPy does) -/\n'
+                'def S4cltParamRaw (priors : Int → Nat → F) (joints : Int → Int → Nat → Nat → F) (tree : Int → Int) (root_id i : Int) (l k : Nat) : F :=\n'
+                f'  if i = root_id then priors root_id k\n  else {term}',
+                f'/-- … after `params /= np.sum(params, axis={axis}, keepdims=True)` -/\n'
+                'def S4cltParam (priors : Int → Nat → F) (joints : Int → Int → Nat → Nat → F) (tree : Int → Int) (root_id i : Int) (l k : Nat) : F :=\n'
+                f'  S4cltParamRaw priors joints tree root_id i l k / Gen.Py4.sum ({den})']
+    formula4('cltree.compute_clt_parameters', clt_parameters)
+
+    def clt_fit():
+        q = 'BinaryCLT.fit'
+        fn = T.find_func(cltree, q)
+        stmts = nodoc(fn.body)
+        # argument guards and the random-state check come first; the steps start at the root choice
+        k0 = [k for k, s in enumerate(stmts) if isinstance(s, ast.If) and txt(s.test) == 'self.rootisNone']
+        k0 = T.the(k0, f'{q}: `if self.root is None`')
+        pre = stmts[:k0]
+        for s in pre:
+            ok = (isinstance(s, ast.If) and len(s.body) == 1 and isinstance(s.body[0], ast.Raise)) \
+                or (isinstance(s, ast.Assign) and txt(s.value) in ('data.shape', 'check_random_state(random_state)'))
+            if not ok:
+                raise U(f'{q}: statement before the root choice not understood: ' + ast.unparse(s).splitlines()[0])
+        steps = []
+        for s in stmts[k0:]:
+            if isinstance(s, ast.If) and not s.orelse:
+                for b in nodoc(s.body):
+                    if not isinstance(b, ast.Assign):
+                        raise U(f'{q}: conditional step that is not an assignment')
+                    steps.append((canon_locals(fn, s.test), canon_locals(fn, b)))
+            elif isinstance(s, ast.Assign):
+                steps.append(('', canon_locals(fn, s)))
+            else:
+                raise U(f'{q}: step not understood: ' + ast.unparse(s).splitlines()[0])
+        return ('/-- `BinaryCLT.fit` after its argument guards: the steps (condition, assignment) in order; local variables are written v0, v1, … '
+                'in the order of their first assignment in the function -/\n'
+                'def S4cltFitSteps : List (String × String) := [' + ',\n   '.join(f'({T.lean_str(c_)}, {T.lean_str(s_)})' for c_, s_ in steps) + ']')
+    const4('cltree.fit', clt_fit)
+
+    # ---- (e) C18: BinaryCNet.fit, learn_cnet_bd, learn_cnet_bic — the bodies of the `while node_stack:` loops -------------------------
+    cnet = T.parse_file(repo, 'deeprob/spn/structure/cnet.py')
+    cnet_bayes = T.parse_file(repo, 'deeprob/spn/learning/cnet_bayesian.py')
+    CNODE = {'scope': ('S4CNode.scope', ('list', 'item')), 'row_indices': ('S4CNode.rows', ('list', 'item')),
+             'col_indices': ('S4CNode.cols', ('list', 'item')), 'clt': ('S4CNode.clt', ('opt', 'clt'))}
+    o.consts.append('/-- a `BinaryCNet` object as the learners build it: `scope`, `row_indices`, `col_indices`, and the Chow-Liu tree handed over '
+                    '(`none` = not set) -/\nstructure S4CNode (C : Type) where\n  scope : List Nat\n  rows : List Nat\n  cols : List Nat\n  clt : Option C := none')
+
+    def cnet_hook(part):
+        def h(tr, e):
+            nm = T.dotted_name(e.func) or ''
+            kws = {k.arg: k.value for k in e.keywords}
+            if nm == 'np.arange' and len(e.args) == 1 and not kws:
+                return f'(List.range ({tr.as_int(tr.tr(e.args[0]))}).toNat)', ('list', 'item')
+            if nm == 'list' and len(e.args) == 1 and isinstance(e.args[0], ast.Call) and (T.dotted_name(e.args[0].func) or '') == 'range' \
+                    and len(e.args[0].args) == 1:
+                return f'(List.range ({tr.as_int(tr.tr(e.args[0].args[0]))}).toNat)', ('list', 'item')
+            if nm == 'np.delete' and len(e.args) == 1 and set(kws) == {'obj'}:
+                xs, k = tr.tr(e.args[0]), tr.tr(kws['obj'])
+                if xs[1] == ('list', 'item') and k[1] in ('int', 'item'):
+                    return f'(Py3.delete {xs[0]} ({tr.as_int(k)}).toNat)', ('list', 'item')
+            if nm == 'BinaryCNet' and not e.args and set(kws) == {'scope'}:
+                sc = tr.tr(kws['scope'])
+                if sc[1] == ('list', 'item'):
+                    return f'({{ scope := {sc[0]}, rows := [], cols := [] }} : S4CNode C)', 'obj'
+            if isinstance(e.func, ast.Attribute) and e.func.attr == 'copy' and not e.args and not kws:
+                v = tr.tr(e.func.value)
+                if isinstance(v[1], tuple) and v[1][0] == 'list':
+                    return v
+            if nm == 'min' and len(e.args) == 2 and not kws:
+                return f'(min {tr.as_int(tr.tr(e.args[0]))} {tr.as_int(tr.tr(e.args[1]))})', 'int'
+            return None
+        return h
+
+    class TrN(TrIn):
+        """TrIn plus the columns of the data partition `partition[:, k]` (`cutcol k`)"""
+        part = None
+        def child(self, **bind):
+            sub = TrN(self.env, None, self.attrs, self.funcs, self.transparent, self.enums)
+            sub.syms = self.syms
+            sub.hooks = self.hooks
+            sub.part = self.part
+            sub.env.update(bind)
+            return sub
+        def tr(self, e):
+            if txt(e) in self.syms:
+                return self.syms[txt(e)]
+            if isinstance(e, ast.Subscript) and isinstance(e.value, ast.Name) and e.value.id == self.part and isinstance(e.slice, ast.Tuple) \
+                    and len(e.slice.elts) == 2 and txt(e.slice.elts[0]) == ':':
+                k = self.tr(e.slice.elts[1])
+                if k[1] in ('int', 'item'):
+                    return f'(cutcol {self.as_int(k)})', ('list', 'int')
+            return TrIn.tr(self, e)
+
+    def cnode_stmt_hook(q, nd, part, extra=None):
+        """statement readings shared by the three learners"""
+        def hook(tr, st):
+            if extra is not None:
+                r = extra(tr, st)
+                if r is not None:
+                    return r
+            if isinstance(st, ast.Assign) and len(st.targets) == 1:
+                tg, v = st.targets[0], st.value
+                if isinstance(tg, ast.Tuple) and txt(v) == f'{part}.shape' and len(tg.elts) == 2:
+                    a_, b_ = [x.id for x in tg.elts]
+                    return [(T.lid(a_), a_, f'(((S4CNode.rows node).length : Nat) : Int)', 'int'),
+                            (T.lid(b_), b_, f'(((S4CNode.cols node).length : Nat) : Int)', 'int')]
+                if txt(tg) == f'{nd}.or_id':
+                    t_, ty = tr.tr(v)
+                    if ty != 'item':
+                        raise U(f'{q}: node.or_id does not receive a variable')
+                    return [('node_or_id', f'{nd}.or_id', f'some {t_}', ('opt', 'item'))]
+                if txt(tg) == f'{nd}.clt' and txt(v) == 'None':
+                    return [('node_clt', f'{nd}.clt', '"None"', 'str')]
+                if isinstance(tg, ast.Attribute) and isinstance(tg.value, ast.Name) and tg.attr == 'clt' and tg.value.id != nd:
+                    old = tr.tr(tg.value)
+                    c_, cty = tr.tr(v)
+                    if old[1] == 'obj' and cty == 'clt':
+                        return [(T.lid(tg.value.id), tg.value.id, f'{{ {old[0]} with clt := some {c_} }}', 'obj')]
+            if isinstance(st, ast.Expr) and isinstance(st.value, ast.Call) and isinstance(st.value.func, ast.Attribute):
+                c = st.value
+                kws = {k.arg: k.value for k in c.keywords}
+                if c.func.attr == 'assign_indices' and isinstance(c.func.value, ast.Name) and not c.args and set(kws) == {'row_indices', 'col_indices'}:
+                    old = tr.tr(c.func.value)
+                    r_, c_ = tr.tr(kws['row_indices']), tr.tr(kws['col_indices'])
+                    if old[1] == 'obj' and r_[1] == ('list', 'item') and c_[1] == ('list', 'item'):
+                        return [(T.lid(c.func.value.id), c.func.value.id, f'{{ {old[0]} with rows := {r_[0]}, cols := {c_[0]} }}', 'obj')]
+                if c.func.attr == 'fit_clt' and txt(c.func.value) == nd and not c.args and {k_: txt(v_) for k_, v_ in kws.items()} == {'data': part, 'alpha': 'alpha'}:
+                    return [('node_clt', f'{nd}.clt', '"fit_clt(partition, alpha)"', 'str')]
+            if isinstance(st, ast.Delete) and len(st.targets) == 1 and isinstance(st.targets[0], ast.Subscript) and isinstance(st.targets[0].value, ast.Name):
+                xs, k = tr.tr(st.targets[0].value), tr.tr(st.targets[0].slice)
+                if xs[1] == ('list', 'item') and k[1] in ('int', 'item'):
+                    nm_ = st.targets[0].value.id
+                    return [(T.lid(nm_), nm_, f'(Py3.delete {xs[0]} ({tr.as_int(k)}).toNat)', ('list', 'item'))]
+            return None
+        return hook
+
+    NODE_OUTS = lambda nd: [f'{nd}.children', f'{nd}.weights', f'{nd}.or_id', f'{nd}.clt']
+
+    def node_env(tr, nd):
+        tr.syms[f'{nd}.children'] = ('([] : List (S4CNode C))', ('list', 'obj'))
+        tr.syms[f'{nd}.weights'] = ('([] : List W)', ('list', 'num'))
+        tr.syms[f'{nd}.or_id'] = ('(none : Option Nat)', ('opt', 'item'))
+        tr.syms[f'{nd}.clt'] = ('"unchanged"', 'str')
+
+    WSIG = '{W C : Type} [Add W] [Sub W] [Mul W] [Div W] [IntCast W] [LT W] [DecidableLT W] [LE W] [DecidableLE W]'
+
+    def cnet_fit():
+        q = 'BinaryCNet.fit'
+        fn = T.find_func(cnet, q)
+        params = [a.arg for a in fn.args.args]
+        if params != ['self', 'data', 'alpha', 'min_n_samples', 'min_n_features', 'min_mean_entropy']:
+            raise U(f'{q}: parameters are {params}')
+        stmts = nodoc(fn.body)
+        loop = T.the([s for s in stmts if isinstance(s, ast.While)], f'{q}: while loop')
+        k = stmts.index(loop)
+        stack = txt(loop.test)
+        body = nodoc(loop.body)
+        if not (isinstance(body[0], ast.Assign) and isinstance(body[0].targets[0], ast.Name) and txt(body[0].value) in (f'{stack}.pop(0)', f'{stack}.pop()')):
+            raise U(f'{q}: the loop does not start by taking a node from {stack}')
+        pop = txt(body[0].value)[len(stack) + 1:]
+        nd = body[0].targets[0].id
+        if not (isinstance(body[1], ast.Assign) and isinstance(body[1].targets[0], ast.Name)
+                and txt(body[1].value) == f'data[{nd}.row_indices][:,{nd}.col_indices]'):
+            raise U(f'{q}: the partition is not data[node.row_indices][:, node.col_indices]')
+        part = body[1].targets[0].id
+        def extra(tr, st):
+            if isinstance(st, ast.Assign) and isinstance(st.targets[0], ast.Tuple) and isinstance(st.value, ast.Call) \
+                    and txt(st.value.func) in ('self.__select_variable_entropy', 'self._BinaryCNet__select_variable_entropy'):
+                if [txt(x) for x in st.value.args] != [part] or {k_.arg: txt(k_.value) for k_ in st.value.keywords} != {'alpha': 'alpha'}:
+                    raise U(f'{q}: the cut variable is not selected on (partition, alpha=alpha)')
+                ns = [x.id for x in st.targets[0].elts]
+                if len(ns) != 3:
+                    raise U(f'{q}: the selection does not return (index, mean entropy, information gain)')
+                return [(T.lid(ns[0]), ns[0], 'selIdx', 'int'), (T.lid(ns[1]), ns[1], 'meanEntropy', 'num'), (T.lid(ns[2]), ns[2], 'maxGain', 'num')]
+            return None
+        tr = TrN(env={nd: ('node', 'obj'), stack: ('stack', ('list', 'obj')), 'alpha': ('alpha', 'num'),
+                      'min_n_samples': ('min_n_samples', 'int'), 'min_n_features': ('min_n_features', 'int'),
+                      'min_mean_entropy': ('min_mean_entropy', 'num')}, attrs=CNODE)
+        tr.part = part
+        tr.hooks = (cnet_hook(part),)
+        node_env(tr, nd)
+        ex = T.Exec4(q, stmt_hook=cnode_stmt_hook(q, nd, part, extra))
+        text, tys = ex.run(tr, body[2:], [stack] + NODE_OUTS(nd), in_loop=True)
+        if tys != [('list', 'obj'), ('list', 'obj'), ('list', 'num'), ('opt', 'item'), 'str']:
+            raise U(f'{q}: the loop body does not leave (stack, children, weights, or_id, clt) but {tys}')
+        # before the loop: root and the stack; after it: what is copied from the temporary root
+        pre = stmts[:k]
+        rootst = [s for s in pre if isinstance(s, ast.Assign) and isinstance(s.targets[0], ast.Name) and isinstance(s.value, ast.Call)
+                  and (T.dotted_name(s.value.func) or '') == 'BinaryCNet']
+        rs = T.the(rootst, f'{q}: temporary root')
+        rn = rs.targets[0].id
+        sh = pre[0]
+        if not (isinstance(sh, ast.Assign) and isinstance(sh.targets[0], ast.Tuple) and txt(sh.value) == 'data.shape'):
+            raise U(f'{q}: the first statement is not `<rows>, <cols> = data.shape`')
+        a_, b_ = [x.id for x in sh.targets[0].elts]
+        tr2 = TrN(env={a_: ('nSamples', 'int'), b_: ('nFeatures', 'int')}, attrs=CNODE)
+        tr2.hooks = (cnet_hook(part),)
+        ex2 = T.Exec4(q, stmt_hook=cnode_stmt_hook(q, rn, part), skip=lambda st: not any(isinstance(n, ast.Name) and n.id == rn for n in ast.walk(st)))
+        init, ity = ex2.run(tr2, pre[1:], [stack])
+        if ity != [('list', 'obj')]:
+            raise U(f'{q}: the stack does not start as a list of nodes')
+        post = stmts[k + 1:]
+        copies = []
+        for st in post:
+            if not (isinstance(st, ast.Assign) and isinstance(st.targets[0], ast.Attribute) and txt(st.targets[0].value) == 'self'
+                    and txt(st.value) == f'{rn}.{st.targets[0].attr}'):
+                raise U(f'{q}: statement after the loop that does not copy an attribute of the temporary root: ' + ast.unparse(st))
+            copies.append(st.targets[0].attr)
+        return ('/-- `BinaryCNet.fit`: one iteration of `while node_stack:` after `node = node_stack.<S4cnetFitPop>` (`stack` = the rest); cutcol k = column '
+                '`partition[:, k]` of `partition = data[node.row_indices][:, node.col_indices]`; (selIdx, meanEntropy, maxGain) = the answer of '
+                '`__select_variable_entropy(partition, alpha=alpha)`.  Result: the stack, then `node.children`, `node.weights`, `node.or_id`, and '
+                'what happened to `node.clt` -/\n'
+                f'def S4cnetFitStep {WSIG} (node : S4CNode C) (stack : List (S4CNode C)) (cutcol : Int → List Int)\n'
+                '    (alpha min_mean_entropy : W) (min_n_samples min_n_features : Int) (selIdx : Int) (meanEntropy maxGain : W) :\n'
+                '    List (S4CNode C) × List (S4CNode C) × List W × Option Nat × String :=\n'
+                f'  {text}\n'
+                f'def S4cnetFitPop : String := {T.lean_str(pop)}\n'
+                '/-- … the stack before the loop, and the attributes copied from the temporary root to `self` after it -/\n'
+                f'def S4cnetFitInit {{C : Type}} (nSamples nFeatures : Int) : List (S4CNode C) :=\n  {init}\n'
+                f'def S4cnetFitCopies : List String := {T.lean_list([T.lean_str(x) for x in copies])}')
+    const4('cnet.fit', cnet_fit)
+
+    def score_learner(q, lean, hyper, par_doc):
+        """`learn_cnet_bd` / `learn_cnet_bic`: the loop body around the (oracle) search for the best cut"""
+        def mk():
+            fn = T.find_func(cnet_bayes, q)
+            stmts = nodoc(fn.body)
+            loop = T.the([s for s in stmts if isinstance(s, ast.While)], f'{q}: while loop')
+            stack = txt(loop.test)
+            body = nodoc(loop.body)
+            s0 = body[0]
+            if not (isinstance(s0, ast.Assign) and isinstance(s0.targets[0], ast.Tuple) and txt(s0.value) in (f'{stack}.pop(0)', f'{stack}.pop()')):
+                raise U(f'{q}: the loop does not start by unpacking an entry of {stack}')
+            pop = txt(s0.value)[len(stack) + 1:]
+            names = [x.id for x in s0.targets[0].elts]
+            nd = names[0]
+            if len(names) != (3 if 'ess' in hyper else 2):
+                raise U(f'{q}: a stack entry has {len(names)} components')
+            parts = [s for s in body if isinstance(s, ast.Assign) and txt(s.value) == f'data[{nd}.row_indices][:,{nd}.col_indices]']
+            part = T.the(parts, f'{q}: partition').targets[0].id
+            # the search for the best cut: `for i in <search_indices>` with its update block
+            fl = T.the([s for s in body if isinstance(s, ast.For)], f'{q}: candidate loop')
+            upd = [s for s in fl.body if isinstance(s, ast.If) and isinstance(s.test, ast.Compare) and isinstance(s.test.ops[0], ast.Gt)
+                   and all(isinstance(b, ast.Assign) and isinstance(b.targets[0], ast.Name) for b in s.body)]
+            upd = T.the(upd, f'{q}: update of the best candidate')
+            oracle = [b.targets[0].id for b in upd.body]
+            best_score = txt(upd.test.comparators[0])
+            if best_score not in oracle:
+                raise U(f'{q}: the update block does not update the score it compares with')
+            inits = {}
+            for s in body:
+                if isinstance(s, ast.Assign) and isinstance(s.targets[0], ast.Name) and s.targets[0].id in oracle and s is not upd:
+                    t_ = txt(s.value)
+                    inits[s.targets[0].id] = 'int' if t_ in ('-1', '0') else ('clt' if t_ == 'None' else 'num')
+            if set(inits) != set(oracle):
+                raise U(f'{q}: the best-candidate variables are not all initialised before the search')
+            # k = min(n_cand_cuts, len(node.scope)); search_indices = select_cand_cuts(…, n_cand_cuts=k)
+            sel = T.the([s for s in body if isinstance(s, ast.Assign) and isinstance(s.value, ast.Call)
+                         and (T.dotted_name(s.value.func) or '') == 'select_cand_cuts'], f'{q}: select_cand_cuts')
+            if txt(fl.iter) != sel.targets[0].id:
+                raise U(f'{q}: the candidate loop is not over the result of select_cand_cuts')
+            kk = {k_.arg: k_.value for k_ in sel.value.keywords}.get('n_cand_cuts')
+            if kk is None or not isinstance(kk, ast.Name):
+                raise U(f'{q}: select_cand_cuts is not called with n_cand_cuts=<name>')
+            def skip(st):
+                if st is fl or st is sel:
+                    return True
+                if isinstance(st, ast.Assign) and isinstance(st.targets[0], ast.Name) and st.targets[0].id in oracle:
+                    return True
+                if isinstance(st, ast.Assign) and isinstance(st.value, ast.Call) and (T.dotted_name(st.value.func) or '') in ('compute_or_bd_scores',):
+                    return True
+                return False
+            def extra(tr, st):
+                if isinstance(st, ast.Expr) and isinstance(st.value, ast.Call) and txt(st.value.func) == f'{stack}.append' \
+                        and len(st.value.args) == 1 and isinstance(st.value.args[0], ast.List):
+                    vals = [tr.tr(x) for x in st.value.args[0].elts]
+                    want = ['obj'] + ['num'] * (len(names) - 1)
+                    if [ty for _, ty in vals] != want:
+                        raise U(f'{q}: a stack entry is not (node, ' + ', '.join(['number'] * (len(names) - 1)) + ')')
+                    old = tr.tr(st.value.func.value)
+                    return [(T.lid(stack), stack, f'({old[0]} ++ [({", ".join(t_ for t_, _ in vals)})])', old[1])]
+                return None
+            env = {nd: ('node', 'obj'), stack: ('stack', ('list', 'entry')), 'n_cand_cuts': ('n_cand_cuts', 'int')}
+            for nm_, p in zip(names[1:], ['nodePar', 'nodeScore'] if len(names) == 3 else ['nodeScore']):
+                env[nm_] = (p, 'num')
+            for h in hyper:
+                if h not in names:
+                    env[h] = (h, 'num')
+            for nm_ in oracle:
+                env[nm_] = ('best' + ''.join(w.capitalize() for w in nm_.split('_')[1:]), inits[nm_])
+            tr = TrN(env=env, attrs=CNODE)
+            tr.part = part
+            tr.hooks = (cnet_hook(part),)
+            node_env(tr, nd)
+            ex = T.Exec4(q, stmt_hook=cnode_stmt_hook(q, nd, part, extra), skip=skip)
+            rest = [s for s in body[1:] if not (isinstance(s, ast.Assign) and s.targets[0] is parts[0].targets[0])]
+            text, tys = ex.run(tr, rest, [stack] + NODE_OUTS(nd), in_loop=True)
+            if tys != [('list', 'entry'), ('list', 'obj'), ('list', 'num'), ('opt', 'item'), 'str']:
+                raise U(f'{q}: the loop body does not leave (stack, children, weights, or_id, clt) but {tys}')
+            ety = 'S4CNode C × W × W' if len(names) == 3 else 'S4CNode C × W'
+            binders = ' '.join(f'({env[nm_][0]} : {"Int" if inits[nm_] == "int" else ("C" if inits[nm_] == "clt" else "W")})' for nm_ in oracle)
+            pars = ' '.join(f'({env[nm_][0]} : W)' for nm_ in names[1:]) + ''.join(f' ({h} : W)' for h in hyper if h not in names)
+            return (f'/-- `{q}`: one iteration of `while node_stack:` after `{", ".join(names)} = node_stack.<{lean}Pop>` (`stack` = the rest; {par_doc}); '
+                    'cutcol k = column `partition[:, k]`; the `best…` arguments = the values left by the search over `select_cand_cuts(…, n_cand_cuts=k)` '
+                    f'(`{lean}K`), in the order of its update block ({", ".join(oracle)}).  Result: the stack, then `node.children`, `node.weights`, `node.or_id`, and what '
+                    'happened to `node.clt` -/\n'
+                    f'def {lean}Step {WSIG} (node : S4CNode C) {pars} (stack : List ({ety}))\n'
+                    f'    (cutcol : Int → List Int) (n_cand_cuts : Int) {binders} :\n'
+                    f'    List ({ety}) × List (S4CNode C) × List W × Option Nat × String :=\n'
+                    f'  {text}\n'
+                    f'def {lean}Pop : String := {T.lean_str(pop)}\n'
+                    f'/-- … the candidate loop runs over `select_cand_cuts(…, n_cand_cuts={kk.id})` with -/\n'
+                    f'def {lean}K {{C : Type}} (node : S4CNode C) (n_cand_cuts : Int) : Int :=\n'
+                    f'  {tr.as_int(tr.tr(T.the(T.assignments(fn, kk.id), kk.id)))}')
+        const4('cnet_bayesian.' + q, mk)
+    score_learner('learn_cnet_bd', 'S4cnetBd', ['ess'], 'nodePar = `node_ess`, nodeScore = `node_clt_score`')
+    score_learner('learn_cnet_bic', 'S4cnetBic', ['alpha'], 'nodeScore = `node_clt_score`')
+
+    def select_cand_scalar():
+        q = 'select_cand_cuts'
+        fn = T.find_func(cnet_bayes, q)
+        r = T.the(T.returns(fn), f'{q}: return')
+        v = T.the(T.assignments(fn, ast.unparse(r)), f'{q}: returned value') if isinstance(r, ast.Name) else r
+        if not (isinstance(v, ast.IfExp) and isinstance(v.body, ast.Call) and (T.dotted_name(v.body.func) or '') == 'np.argmax'
+                and isinstance(v.orelse, ast.Subscript)):
+            raise U(f'{q}: the result is not `np.argmax(…) if <test> else <array>[…]`')
+        tr = T.TrZ4(env={'n_cand_cuts': ('n_cand_cuts', 'int')})
+        return ('/-- `select_cand_cuts` returns a SCALAR (`np.argmax`), not an array, iff — and `for i in <scalar>` raises `TypeError` -/\n'
+                f'def S4selectCandScalar (n_cand_cuts : Int) : Bool := {tr.as_bool(tr.tr(v.test))}')
+    const4('cnet_bayesian.select_cand_cuts', select_cand_scalar)
+
+    # ---- (f) C16: layers/ratspn.py and models/ratspn.py — the top-down passes of `mpe` and `sample` on one row ------------------------
+    rat_l = T.parse_file(repo, 'deeprob/spn/layers/ratspn.py')
+    rat_m = T.parse_file(repo, 'deeprob/spn/models/ratspn.py')
+    VEC, IVEC = ('list', 'num'), ('list', 'int')
+
+    def kwmap(e):
+        return {k.arg: k.value for k in e.keywords}
+
+    class TrT(TrIn):
+        """torch code read on ONE row of the batch: index rows are lists of integers, a layer input is `x : Int → List α` (group ↦ the
+        values of its nodes), weights are accessors, `log_softmax` is an opaque map on vectors"""
+        def child(self, **bind):
+            sub = TrT(self.env, None, self.attrs, self.funcs, self.transparent, self.enums)
+            sub.syms = self.syms
+            sub.hooks = self.hooks
+            sub.env.update(bind)
+            return sub
+        def tr(self, e):
+            if txt(e) in self.syms:
+                return self.syms[txt(e)]
+            if isinstance(e, ast.Tuple) and all(isinstance(x, ast.Name) for x in e.elts) and len(e.elts) == 2:
+                a_, b_ = self.tr(e.elts[0]), self.tr(e.elts[1])
+                return f'({a_[0]}, {b_[0]})', ('pair', a_[1], b_[1])
+            if isinstance(e, ast.BinOp) and isinstance(e.op, (ast.Add, ast.Mult)):
+                a_, b_ = self.tr(e.left), self.tr(e.right)
+                op = BIN[type(e.op)]
+                if a_[1] == IVEC and b_[1] == 'int':
+                    return f'({a_[0]}.map (fun a => a {op} {b_[0]}))', IVEC
+                if a_[1] == VEC and b_[1] == VEC and op == '+':
+                    return f'(List.zipWith (fun a b => a + b) {a_[0]} {b_[0]})', VEC
+                if a_[1] == ('list', VEC) and b_[1] == ('list', VEC) and op == '+':
+                    return f'(List.zipWith (fun u v => List.zipWith (fun a b => a + b) u v) {a_[0]} {b_[0]})', ('list', VEC)
+            if isinstance(e, ast.Subscript):
+                sl = e.slice
+                base = self.tr(e.value)
+                if base[1] == 'tab' and isinstance(sl, ast.Tuple) and len(sl.elts) == 2 and isinstance(e.value, ast.Name) \
+                        and txt(sl.elts[0]) == f'torch.unsqueeze(torch.arange({e.value.id}.shape[0]),dim=1)':
+                    ix = self.tr(sl.elts[1])                # x[arange(n)[:, None], idx]: row r reads x[r, idx[r, j]]
+                    if ix[1] == IVEC:
+                        return f'({ix[0]}.map (fun g => {base[0]} g))', ('list', VEC)
+                if base[1] == 'tab2' and isinstance(sl, ast.Tuple) and len(sl.elts) == 2:
+                    a_, b_ = self.tr(sl.elts[0]), self.tr(sl.elts[1])
+                    if a_[1] == IVEC and b_[1] == IVEC:
+                        return f'(List.zipWith (fun g o => {base[0]} g o) {a_[0]} {b_[0]})', ('list', base[2] if len(base) > 2 else VEC)
+                if base[1] == 'cls2vec' and not isinstance(sl, (ast.Tuple, ast.Slice)):
+                    y = self.tr(sl)
+                    if y[1] == 'int':
+                        return f'({base[0]} {y[0]})', VEC
+                if base[1] == IVEC and isinstance(sl, ast.Tuple) and len(sl.elts) == 2 and txt(sl.elts[0]) == ':':
+                    k = self.tr(sl.elts[1])
+                    if k[1] == 'int':
+                        return f'(Py4.getI {base[0]} {k[0]} 0)', 'int'
+                if base[1] == 'int2ivec' or base[1] == 'int2bvec':
+                    k = self.tr(sl)
+                    if k[1] == 'int':
+                        return f'({base[0]} {k[0]})', (IVEC if base[1] == 'int2ivec' else ('list', 'bool'))
+            if isinstance(e, ast.Call):
+                nm = T.dotted_name(e.func) or ''
+                kw = kwmap(e)
+                if nm == 'torch.div' and len(e.args) == 2 and {k: txt(v) for k, v in kw.items()} == {'rounding_mode': "'floor'"}:
+                    a_, b_ = self.tr(e.args[0]), self.tr(e.args[1])
+                    if a_[1] == IVEC and b_[1] == 'int':
+                        return f'({a_[0]}.map (fun a => Int.fdiv a {b_[0]}))', IVEC
+                    if a_[1] == 'int' and b_[1] == 'int':
+                        return f'(Int.fdiv {a_[0]} {b_[0]})', 'int'
+                if nm == 'torch.remainder' and len(e.args) == 2 and not kw:
+                    a_, b_ = self.tr(e.args[0]), self.tr(e.args[1])
+                    if a_[1] == IVEC and b_[1] == 'int':
+                        return f'({a_[0]}.map (fun a => Int.fmod a {b_[0]}))', IVEC
+                if nm == 'torch.flatten' and len(e.args) == 1 and {k: txt(v) for k, v in kw.items()} == {'start_dim': '1'}:
+                    inner = e.args[0]
+                    if isinstance(inner, ast.Call) and (T.dotted_name(inner.func) or '') == 'torch.stack' and len(inner.args) == 1 \
+                            and isinstance(inner.args[0], ast.List) and len(inner.args[0].elts) == 2 \
+                            and {k: txt(v) for k, v in kwmap(inner).items()} == {'dim': '2'}:
+                        a_, b_ = self.tr(inner.args[0].elts[0]), self.tr(inner.args[0].elts[1])
+                        if a_[1] == IVEC and b_[1] == IVEC:
+                            return f'(Py4.interleave {a_[0]} {b_[0]})', IVEC
+                    v = self.tr(inner)
+                    if isinstance(v[1], tuple) and v[1][0] == 'list' and isinstance(v[1][1], tuple) and v[1][1][0] == 'list':
+                        return f'({v[0]}.flatten)', v[1][1]
+                if nm == 'torch.log_softmax' and len(e.args) == 1 and set(kw) == {'dim'}:
+                    v = self.tr(e.args[0])
+                    d = int(T.const_value(kw['dim']))
+                    if v[1] == ('list', VEC) and d == 2:
+                        return f'({v[0]}.map logSoftmax)', ('list', VEC)
+                    if v[1] == 'cls2raw' and d == 1:
+                        return f'(fun c => logSoftmax ({v[0]} c))', 'cls2vec'
+                if nm == 'torch.argmax' and len(e.args) == 1:
+                    v = self.tr(e.args[0])
+                    kws = {k: txt(v_) for k, v_ in kw.items()}
+                    if v[1] == ('list', VEC) and kws == {'dim': '2'}:
+                        return f'({v[0]}.map (fun v => ((Py4.argmax v : Nat) : Int)))', IVEC
+                    if v[1] == VEC and kws == {'dim': '1', 'keepdim': 'True'}:
+                        return f'[((Py4.argmax {v[0]} : Nat) : Int)]', IVEC
+                if nm == 'torch.gather' and len(e.args) == 1 and set(kw) == {'dim', 'index'} and txt(kw['dim']) == '1':
+                    x_, ix = self.tr(e.args[0]), self.tr(kw['index'])
+                    if x_[1] == ('list', 'val') and ix[1] == IVEC:
+                        return f'(Py4.gather {x_[0]} {ix[0]})', ('list', 'val')
+                if nm == 'torch.isnan' and len(e.args) == 1 and not kw:
+                    v = self.tr(e.args[0])
+                    if v[1] == ('list', 'optval'):
+                        return f'({v[0]}.map Py3.isnan)', ('list', 'bool')
+                if nm == 'torch.where' and len(e.args) == 3 and not kw:
+                    c_, a_, b_ = [self.tr(x) for x in e.args]
+                    if c_[1] == ('list', 'bool') and a_[1] == ('list', 'val') and b_[1] == ('list', 'optval'):
+                        return (f'(Py4.zipWith3 (fun c a b => if c then a else (Py3.val b)) {c_[0]} {a_[0]} {b_[0]})', ('list', 'val'))
+            return TrIn.tr(self, e)
+    BIN = {ast.Add: '+', ast.Mult: '*'}
+
+    def layer_method(cls, meth, params):
+        fn = T.find_func(rat_l, f'{cls}.{meth}')
+        a = args_of(fn, params, f'{cls}.{meth}')
+        return fn, a
+
+    def rat_product():
+        q = 'ProductLayer.sample'
+        fn, a = layer_method('ProductLayer', 'sample', ('self', 'idx_group', 'idx_offset'))
+        S, G, O = a
+        tr = TrT(env={G: ('idx_group', IVEC), O: ('idx_offset', IVEC)}, syms={f'{S}.in_nodes': ('in_nodes', 'int')})
+        text, tys = T.Exec4(q).run(tr, nodoc(fn.body), T.RETURNED)
+        if tys != [('pair', IVEC, IVEC)]:
+            raise U(f'{q}: does not return a pair of index rows')
+        fm, am = layer_method('ProductLayer', 'mpe', ('self', 'x', 'idx_group', 'idx_offset'))
+        r = T.the(nodoc(fm.body), 'ProductLayer.mpe: single statement')
+        if txt(r) != f'return{am[0]}.sample({am[2]},{am[3]})':
+            raise U('ProductLayer.mpe does not return self.sample(idx_group, idx_offset)')
+        return ('/-- `ProductLayer.sample` on one row (`ProductLayer.mpe(x, g, o)` returns `self.sample(g, o)`): the new (idx_group, idx_offset) -/\n'
+                f'def S4ratProdSample (in_nodes : Int) (idx_group idx_offset : List Int) : List Int × List Int :=\n  {text}')
+    const4('ratspn.ProductLayer.sample', rat_product)
+
+    def rat_sum_mpe():
+        q = 'SumLayer.mpe'
+        fn, a = layer_method('SumLayer', 'mpe', ('self', 'x', 'idx_group', 'idx_offset'))
+        S, X, G, O = a
+        tr = TrT(env={X: ('x', 'tab'), G: ('idx_group', IVEC), O: ('idx_offset', IVEC)}, syms={f'{S}.weight': ('weight', 'tab2')})
+        text, tys = T.Exec4(q).run(tr, nodoc(fn.body), T.RETURNED)
+        if tys != [('pair', IVEC, IVEC)]:
+            raise U(f'{q}: does not return a pair of index rows')
+        return ('/-- `SumLayer.mpe` on one row: x g = the values `x[row, g, :]` of the input nodes of partition `g` (the layer\'s input in the forward '
+                'pass), weight g o = `self.weight[g, o, :]`, logSoftmax = `torch.log_softmax` along the input-node axis -/\n'
+                'def S4ratSumMpe {α : Type} [Add α] [LT α] [DecidableLT α] (logSoftmax : List α → List α) (x : Int → List α) (weight : Int → Int → List α)\n'
+                f'    (idx_group idx_offset : List Int) : List Int × List Int :=\n  {text}')
+    const4('ratspn.SumLayer.mpe', rat_sum_mpe)
+
+    def rat_sum_sample():
+        q = 'SumLayer.sample'
+        fn, a = layer_method('SumLayer', 'sample', ('self', 'idx_group', 'idx_offset'))
+        S, G, O = a
+        stmts = nodoc(fn.body)
+        if len(stmts) != 3:
+            raise U(f'{q}: expected (logits, draw, return)')
+        w, d, r = stmts
+        tr = TrT(env={G: ('idx_group', IVEC), O: ('idx_offset', IVEC)}, syms={f'{S}.weight': ('weight', 'tab2')})
+        lt, lty = tr.tr(w.value)
+        if lty != ('list', VEC):
+            raise U(f'{q}: the logits are not one vector per index')
+        wn = w.targets[0].id
+        if not (isinstance(d, ast.Assign) and txt(d.value) == f'distributions.Categorical(logits={wn}).sample()' and txt(d.targets[0]) == O):
+            raise U(f'{q}: idx_offset is not drawn from distributions.Categorical(logits=w).sample()')
+        if not (isinstance(r, ast.Return) and txt(r.value) == f'({G},{O})'):
+            raise U(f'{q}: does not return (idx_group, idx_offset)')
+        return ('/-- `SumLayer.sample` on one row: the logits of the categorical law every new `idx_offset[j]` is drawn from (independently); '
+                '`idx_group` is returned unchanged -/\n'
+                'def S4ratSumSampleLogits {α : Type} (logSoftmax : List α → List α) (weight : Int → Int → List α) (idx_group idx_offset : List Int) : List (List α) :=\n'
+                f'  {lt}\n'
+                'def S4ratSumSampleLaw : String := "distributions.Categorical(logits=w).sample()"')
+    const4('ratspn.SumLayer.sample', rat_sum_sample)
+
+    def rat_root():
+        q = 'RootLayer.mpe'
+        fn, a = layer_method('RootLayer', 'mpe', ('self', 'x', 'y'))
+        S, X, Y = a
+        tr = TrT(env={X: ('x', ('list', VEC)), Y: ('y', 'int')}, syms={f'{S}.weight': ('weight', 'cls2raw'), f'{S}.in_nodes': ('in_nodes', 'int')})
+        text, tys = T.Exec4(q).run(tr, nodoc(fn.body), T.RETURNED)
+        if tys != [('pair', IVEC, IVEC)]:
+            raise U(f'{q}: does not return a pair of index rows')
+        # sample: the same indices from a drawn flat index
+        fs, as_ = layer_method('RootLayer', 'sample', ('self', 'y'))
+        st = nodoc(fs.body)
+        if len(st) != 5:
+            raise U('RootLayer.sample: expected (w, idx, idx_group, idx_offset, return)')
+        wn = st[0].targets[0].id
+        if txt(st[0].value) != f'torch.log_softmax({as_[0]}.weight,dim=1)' \
+                or txt(st[1].value) != f'distributions.Categorical(logits={wn}[{as_[1]}]).sample().unsqueeze(dim=1)':
+            raise U('RootLayer.sample: the flat index is not drawn from Categorical(logits=log_softmax(self.weight, dim=1)[y])')
+        idn = st[1].targets[0].id
+        tr2 = TrT(env={idn: ('idx', IVEC)}, syms={f'{as_[0]}.in_nodes': ('in_nodes', 'int')})
+        text2, tys2 = T.Exec4('RootLayer.sample').run(tr2, st[2:], T.RETURNED)
+        if tys2 != [('pair', IVEC, IVEC)]:
+            raise U('RootLayer.sample: does not return a pair of index rows')
+        return ('/-- `RootLayer.mpe` on one row: x = the input of the root layer (partition ↦ values of its nodes), weight c = `self.weight[c, :]`, '
+                'y = the class; the result is the pair of one-entry rows (idx_group, idx_offset) -/\n'
+                'def S4ratRootMpe {α : Type} [Add α] [LT α] [DecidableLT α] (logSoftmax : List α → List α) (x : List (List α)) (weight : Int → List α)\n'
+                f'    (in_nodes y : Int) : List Int × List Int :=\n  {text}\n'
+                '/-- `RootLayer.sample` on one row, given the flat index drawn from `Categorical(logits=log_softmax(self.weight, dim=1)[y])` -/\n'
+                f'def S4ratRootSample (in_nodes : Int) (idx : List Int) : List Int × List Int :=\n  {text2}')
+    const4('ratspn.RootLayer', rat_root)
+
+    def rat_base():
+        q = 'RegionGraphLayer.unpad_samples'
+        fn, a = layer_method('RegionGraphLayer', 'unpad_samples', ('self', 'x', 'idx_group'))
+        S, X, G = a
+        def hook(tr, st):
+            if isinstance(st, ast.Assign) and isinstance(st.targets[0], ast.Name) and txt(st.value) == f'{G}.shape[0]':
+                return [(T.lid(st.targets[0].id), st.targets[0].id, 'nRows', 'nrows')]
+            if isinstance(st, ast.Assign) and isinstance(st.targets[0], ast.Name) and isinstance(st.value, ast.Call) \
+                    and isinstance(st.value.func, ast.Attribute) and st.value.func.attr == 'view' and isinstance(st.value.func.value, ast.Subscript):
+                sub = st.value.func.value
+                args = [tr.tr(x) for x in st.value.args]
+                if [ty for _, ty in args] != ['nrows', 'int'] or args[1][0] != 'in_features':
+                    raise U(f'{q}: the selection is not viewed as (n_samples, in_features)')
+                base, m = tr.tr(sub.value), tr.tr(sub.slice)
+                if base[1] == ('list', 'val') and m[1] == ('list', 'bool'):
+                    return [(T.lid(st.targets[0].id), st.targets[0].id, f'(Py.select {base[0]} {m[0]})', ('list', 'val'))]
+            return None
+        tr = TrT(env={X: ('x', ('list', 'val')), G: ('idx_group', IVEC)},
+                 syms={f'{S}.rg_depth': ('rgDepth', 'int'), f'{S}.pad': ('pad', 'int'), f'{S}.in_features': ('in_features', 'int'),
+                       f'{S}.inv_mask': ('invMask', 'int2ivec'), f'{S}.inv_pad_mask': ('invPadMask', 'int2bvec')})
+        text, tys = T.Exec4(q, stmt_hook=hook).run(tr, nodoc(fn.body), T.RETURNED)
+        if tys != [('list', 'val')]:
+            raise U(f'{q}: does not return a row of values')
+        # RegionGraphLayer.mpe
+        q2 = 'RegionGraphLayer.mpe'
+        fm, am = layer_method('RegionGraphLayer', 'mpe', ('self', 'x', 'idx_group', 'idx_offset'))
+        S2, X2, G2, O2 = am
+        def hook2(tr_, st):
+            if isinstance(st, ast.Assign) and isinstance(st.targets[0], ast.Name) and txt(st.value) == f'{S2}.distribution_mode()':
+                return [(T.lid(st.targets[0].id), st.targets[0].id, 'mode', 'tab2', ('list', 'val'))[:4]]
+            if isinstance(st, ast.Assign) and isinstance(st.targets[0], ast.Name) and isinstance(st.value, ast.Call) \
+                    and txt(st.value.func) == f'{S2}.unpad_samples':
+                args = [tr_.tr(x) for x in st.value.args]
+                if [ty for _, ty in args] != [('list', 'val'), IVEC]:
+                    raise U(f'{q2}: unpad_samples is not applied to (samples, idx_group)')
+                return [(T.lid(st.targets[0].id), st.targets[0].id, f'(unpadSamples {args[0][0]} {args[1][0]})', ('list', 'val'))]
+            return None
+        class TrT2(TrT):
+            def child(self, **bind):
+                sub = TrT2(self.env, None, self.attrs, self.funcs, self.transparent, self.enums)
+                sub.syms = self.syms
+                sub.hooks = self.hooks
+                sub.env.update(bind)
+                return sub
+            def tr(self, e):
+                if isinstance(e, ast.Subscript) and isinstance(e.value, ast.Name) and self.env.get(e.value.id, (None, None))[1] == 'tab2' \
+                        and isinstance(e.slice, ast.Tuple) and len(e.slice.elts) == 2:
+                    a_, b_ = self.tr(e.slice.elts[0]), self.tr(e.slice.elts[1])
+                    if a_[1] == IVEC and b_[1] == IVEC:
+                        return f'(List.zipWith (fun g o => {self.env[e.value.id][0]} g o) {a_[0]} {b_[0]})', ('list', ('list', 'val'))
+                return TrT.tr(self, e)
+        tr2 = TrT2(env={X2: ('x', ('list', 'optval')), G2: ('idx_group', IVEC), O2: ('idx_offset', IVEC)})
+        text2, tys2 = T.Exec4(q2, stmt_hook=hook2).run(tr2, nodoc(fm.body), T.RETURNED)
+        if tys2 != [('list', 'val')]:
+            raise U(f'{q2}: does not return a row of values')
+        return ('/-- `RegionGraphLayer.unpad_samples` on one row: x = the flattened samples of the selected leaves, idx_group = their region indices; '
+                'invMask t / invPadMask t = row `t` of `self.inv_mask` / `self.inv_pad_mask` -/\n'
+                'def S4ratUnpad {β : Type} [Inhabited β] (rgDepth pad in_features : Int) (invMask : Int → List Int) (invPadMask : Int → List Bool) (nRows : Nat)\n'
+                f'    (x : List β) (idx_group : List Int) : List β :=\n  {text}\n'
+                '/-- `RegionGraphLayer.mpe` on one row: mode g o = `self.distribution_mode()[g, o, :]`, unpadSamples = `self.unpad_samples`; an observed '
+                'entry of `x` is kept, a missing one receives the sample (`torch.where(torch.isnan(x), samples, x)`) -/\n'
+                'def S4ratBaseMpe (mode : Int → Int → List Nat) (unpadSamples : List Nat → List Int → List Nat) (x : List (Option Nat))\n'
+                f'    (idx_group idx_offset : List Int) : List Nat :=\n  {text2}')
+    const4('ratspn.RegionGraphLayer.mpe', rat_base)
+
+    def rat_model(meth):
+        def mk():
+            q = f'RatSpn.{meth}'
+            fn = T.find_func(rat_m, q)
+            steps = []
+            def rec(ss, conds):
+                for st in ss:
+                    if isinstance(st, ast.If):
+                        arms, last = T.elif_chain(st)
+                        neg = []
+                        for test, body in arms:
+                            c_ = canon_locals(fn, test)
+                            rec(body, conds + [f'not ({x})' for x in neg] + [c_])
+                            neg.append(c_)
+                        if last:
+                            rec(last, conds + [f'not ({x})' for x in neg])
+                    elif isinstance(st, ast.For):
+                        hdr = f'for {canon_locals(fn, st.target)} in {canon_locals(fn, st.iter)}'
+                        rec(st.body, conds + [hdr])
+                    elif isinstance(st, (ast.Assign, ast.Return, ast.Expr)):
+                        steps.append((' and '.join(conds), canon_locals(fn, st)))
+                    else:
+                        raise U(f'{q}: statement not understood: ' + ast.unparse(st).splitlines()[0])
+            rec(nodoc(fn.body), [])
+            lean = 'S4ratModel' + meth.capitalize()
+            return (f'/-- `RatSpn.{meth}`: every statement in order as (enclosing conditions / loop headers, statement); local variables are written '
+                    'v0, v1, … in the order of their first assignment -/\n'
+                    f'def {lean} : List (String × String) := [' + ',\n   '.join(f'({T.lean_str(c_)}, {T.lean_str(s_)})' for c_, s_ in steps) + ']')
+        const4('ratspn.RatSpn.' + meth, mk)
+    rat_model('mpe')
+    rat_model('sample')
+
+    # ---- (g) C07: algorithms/sampling.py — sum_sample (scores + Gumbel noise, arg-max axis), leaf_sample ------------------------------
+    sampling = T.parse_file(repo, 'deeprob/spn/algorithms/sampling.py')
+
+    def sum_sample_parts():
+        q = 'sum_sample'
+        fn = T.find_func(sampling, q)
+        a = args_of(fn, ('node', 'lls'), q)
+        N, L = a
+        stmts = nodoc(fn.body)
+        if len(stmts) != 4:
+            raise U(f'{q}: expected (shape, noise, scores, return)')
+        sh, gm, sc, rt = stmts
+        if not (isinstance(sh, ast.Assign) and isinstance(sh.targets[0], ast.Tuple) and len(sh.targets[0].elts) == 2 and txt(sh.value) == f'{L}.shape'):
+            raise U(f'{q}: the first statement is not `<rows>, <children> = lls.shape`')
+        rows, cols = [x.id for x in sh.targets[0].elts]
+        v = gm.value
+        if not (isinstance(gm, ast.Assign) and isinstance(v, ast.Call) and (T.dotted_name(v.func) or '').endswith('.rvs')):
+            raise U(f'{q}: the noise is not a SciPy rvs call')
+        size = {k.arg: k.value for k in v.keywords}.get('size')
+        if size is None or txt(size) != f'({rows},{cols})':
+            raise U(f'{q}: the noise does not have one independent entry per (row, child): size={ast.unparse(size) if size is not None else None}')
+        gname = gm.targets[0].id
+        if not (isinstance(sc, ast.Assign) and isinstance(sc.targets[0], ast.Name)):
+            raise U(f'{q}: the scores are not assigned to a name')
+        tr = T.Tr(syms={L: 'll', f'{N}.weights': 'w', gname: 'g'},
+                  call_hook=lambda t_, c: (f'(E.log {t_.tr(c.args[0])})' if (T.dotted_name(c.func) or '') == 'np.log' and len(c.args) == 1 else None))
+        entry = tr.tr(sc.value)
+        for s_ in ('ll', 'w', 'g'):
+            if s_ not in entry.replace('E.log', ''):
+                raise U(f'{q}: the scores do not depend on all of (lls, node.weights, noise)')
+        if not isinstance(rt, ast.Return):
+            raise U(f'{q}: no return')
+        f, arg, axis, other = T.reduction_call(rt.value)
+        if arg != sc.targets[0].id or other:
+            raise U(f'{q}: does not return a reduction of the scores')
+        return entry, f, axis
+
+    def sum_sample_formula():
+        entry, f, axis = sum_sample_parts()
+        return ('/-- `sampling.sum_sample`: entry (row, child) of the scores; ll = log-value of the child, w = its weight, g = the noise of that '
+                'entry (one independent draw per (row, child): `size=(n_samples, n_features)`) -/\n'
+                f'def S4sumSampleEntry (ll w g : F) : F := {entry}')
+    formula4('sampling.sum_sample.entry', sum_sample_formula)
+
+    def sum_sample_const():
+        entry, f, axis = sum_sample_parts()
+        fl = T.find_func(sampling, 'leaf_sample')
+        al = args_of(fl, ('node', 'x'), 'leaf_sample')
+        r = T.the(nodoc(fl.body), 'leaf_sample: single statement')
+        if txt(r) != f'return{al[0]}.sample({al[1]})':
+            raise U('leaf_sample does not return node.sample(x)')
+        fs = T.find_func(sampling, 'sample')
+        c = T.the([x for x in ast.walk(fs) if isinstance(x, ast.Call) and (T.dotted_name(x.func) or '') == 'eval_top_down'], 'sample: eval_top_down call')
+        kws = {k.arg: txt(k.value) for k in c.keywords}
+        if kws.get('leaf_func') != 'leaf_sample' or kws.get('sum_func') != 'sum_sample':
+            raise U('sample: eval_top_down is not called with leaf_func=leaf_sample, sum_func=sum_sample')
+        ll = T.the([x for x in ast.walk(fs) if isinstance(x, ast.Call) and (T.dotted_name(x.func) or '') == 'log_likelihood'], 'sample: log_likelihood call')
+        if [txt(x) for x in c.args[:3]] != ['root', 'x', 'lls'] or 'return_results' not in {k.arg for k in ll.keywords}:
+            raise U('sample: the top-down pass does not run on (root, x, lls) with lls from log_likelihood(…, return_results=True)')
+        return ('/-- `sampling.sum_sample`: the branch is the `S4sumSampleSelector` of the scores along `S4sumSampleAxis` (one row per sample, one '
+                'column per child); `sampling.leaf_sample(node, x)` returns `node.sample(x)`; `sample` runs `eval_top_down(root, x, lls, '
+                'leaf_func=leaf_sample, sum_func=sum_sample)` on the log-values of the INPUT rows -/\n'
+                f'def S4sumSampleSelector : String := {T.lean_str(f)}\n'
+                f'def S4sumSampleAxis : Option Int := {T.lean_opt_int(axis)}\n'
+                'def S4leafSample : String := "node.sample(x)"\n'
+                'def S4sampleTopDown : List String := ["log_likelihood(root, x, return_results=True)", "eval_top_down(root, x, lls, leaf_func=leaf_sample, sum_func=sum_sample)"]')
+    const4('sampling.sum_sample', sum_sample_const)
+
+    # ---- (b) C02 / C06: BinaryCLT.message_passing — the upward pass (sum-product / max-product) and the root value, on one row -----
+    class TrC3(TrC2):
+        """TrC2 plus the reads of the upward pass: `messages[j]`, `self.params[j, :, o]`, `self.params[j]`, `v[mask, :, o]`, `v[mask, o]`,
+        broadcasts of a 2-vector against a 2×2 table, `logsumexp` / `np.max` along the value axis"""
+        def child(self, **bind):
+            sub = TrC3(self.env, None, self.attrs, self.funcs, self.transparent, self.enums)
+            sub.syms = self.syms
+            sub.hooks = self.hooks
+            sub.selfname = self.selfname
+            sub.env.update(bind)
+            return sub
+        def tr(self, e):
+            if txt(e) in self.syms:
+                return self.syms[txt(e)]
+            full = lambda s_: isinstance(s_, ast.Slice) and s_.lower is None and s_.upper is None and s_.step is None
+            if isinstance(e, ast.Subscript):
+                sl = e.slice
+                if txt(e.value) == f'{self.selfname}.params':
+                    if isinstance(sl, ast.Tuple) and len(sl.elts) == 3:
+                        a_, c_ = self.tr(sl.elts[0]), self.tr(sl.elts[2])
+                        if full(sl.elts[1]) and a_[1] in ('int', 'item') and c_[1] == 'int':
+                            return f'(Py4.vec2 (fun l => params {self.as_int(a_)} l {c_[0]}))', VEC
+                        b_ = self.tr(sl.elts[1])
+                        if a_[1] in ('int', 'item') and b_[1] == 'int' and c_[1] == 'int':
+                            return f'(params {self.as_int(a_)} {b_[0]} {c_[0]})', 'num'
+                    if not isinstance(sl, (ast.Tuple, ast.Slice)):
+                        a_ = self.tr(sl)
+                        if a_[1] in ('int', 'item'):
+                            return f'(Py4.vec2 (fun l => Py4.vec2 (fun k => params {self.as_int(a_)} l k)))', ('list', VEC)
+                base = None
+                if isinstance(e.value, ast.Name) and e.value.id in self.env:
+                    base = self.env[e.value.id]
+                if base is not None and base[1] == ('list', VEC) and not isinstance(sl, (ast.Tuple, ast.Slice)):
+                    k = self.tr(sl)
+                    if k[1] in ('int', 'item'):                  # messages[j]: the row's two entries of variable j
+                        return f'(Py4.getI {base[0]} {self.as_int(k)} [])', VEC
+                if base is not None and base[1] == VEC:
+                    if isinstance(sl, ast.Tuple) and len(sl.elts) == 3 and full(sl.elts[1]):
+                        m_, o_ = self.tr(sl.elts[0]), self.tr(sl.elts[2])
+                        if m_[1] == 'bool' and o_[1] == 'int':       # msg[mask, :, o]: the entry o, broadcast over the parent values
+                            return f'(Py4.getI {base[0]} {o_[0]} 0)', 'num'
+                    if isinstance(sl, ast.Tuple) and len(sl.elts) == 2:
+                        m_, o_ = self.tr(sl.elts[0]), self.tr(sl.elts[1])
+                        if m_[1] == 'bool' and o_[1] == 'int':
+                            return f'(Py4.getI {base[0]} {o_[0]} 0)', 'num'
+                    if not isinstance(sl, (ast.Tuple, ast.Slice)):
+                        m_ = self.tr(sl)
+                        if m_[1] == 'bool':
+                            return base
+            if isinstance(e, ast.BinOp) and isinstance(e.op, ast.Add):
+                a_, b_ = self.tr(e.left), self.tr(e.right)
+                if a_[1] == VEC and b_[1] == 'num':
+                    return f'({a_[0]}.map (fun a => a + {b_[0]}))', VEC
+                if a_[1] == 'num' and b_[1] == 'num':
+                    return f'({a_[0]} + {b_[0]})', 'num'
+                if a_[1] == ('list', VEC) and b_[1] == VEC:
+                    return f'({a_[0]}.map (fun row => List.zipWith (fun a b => a + b) row {b_[0]}))', ('list', VEC)
+            if isinstance(e, ast.Call):
+                nm = T.dotted_name(e.func) or ''
+                kw = {k.arg: txt(k.value) for k in e.keywords}
+                if nm in ('logsumexp', 'np.max') and len(e.args) == 1:
+                    f = 'logsumexp' if nm == 'logsumexp' else 'npMax'
+                    v = self.tr(e.args[0])
+                    if v[1] == ('list', VEC) and kw == {'axis': '2'}:
+                        return f'({v[0]}.map {f})', VEC
+                    if v[1] == VEC and kw == {'axis': '1'}:
+                        return f'({f} {v[0]})', 'num'
+                if nm == 'reversed' and len(e.args) == 1 and not kw:
+                    v = self.tr(e.args[0])
+                    if isinstance(v[1], tuple) and v[1][0] == 'list':
+                        return f'({v[0]}.reverse)', v[1]
+                if nm == 'np.zeros' and set(kw) == {'shape', 'dtype'}:
+                    sh = T.the([k.value for k in e.keywords if k.arg == 'shape'], 'shape')
+                    if isinstance(sh, ast.Tuple) and len(sh.elts) == 3 and txt(sh.elts[2]) == '2':
+                        a_, b_ = self.tr(sh.elts[0]), self.tr(sh.elts[1])
+                        if a_[1] == 'int' and b_[1] == 'nrows':
+                            return f'(List.replicate ({a_[0]}).toNat [(0 : α), 0])', ('list', VEC)
+            return TrC2.tr(self, e)
+
+    def flatten_any(stmts, what):
+        """`if np.any(<row mask>): <statements that only store under that mask>` -> the statements themselves (row-wise the guard
+        only skips stores that would not touch the row)"""
+        out_ = []
+        for st in stmts:
+            if isinstance(st, ast.If) and not st.orelse and isinstance(st.test, ast.Call) and (T.dotted_name(st.test.func) or '') == 'np.any' \
+                    and len(st.test.args) == 1 and isinstance(st.test.args[0], ast.Name) and not st.test.keywords:
+                m = st.test.args[0].id
+                for sub in ast.walk(st):
+                    if isinstance(sub, (ast.Assign, ast.AugAssign)):
+                        tg = sub.targets[0] if isinstance(sub, ast.Assign) else sub.target
+                        if isinstance(tg, ast.Subscript):
+                            idx = tg.slice.elts[-1] if isinstance(tg.slice, ast.Tuple) else tg.slice
+                            if txt(idx) != m:
+                                raise U(f'{what}: a store under `if np.any({m})` is not masked by {m}: ' + ast.unparse(sub))
+                out_.extend(flatten_any(st.body, what))
+            elif isinstance(st, ast.For):
+                out_.append(ast.copy_location(ast.For(target=st.target, iter=st.iter, body=flatten_any(st.body, what), orelse=st.orelse), st))
+            else:
+                out_.append(st)
+        return out_
+
+    def clt_messages():
+        q = 'BinaryCLT.message_passing'
+        fn = T.find_func(cltree, q)
+        a = args_of(fn, ('self', 'x', 'obs_mask', 'return_lls', 'reduce'), q)
+        S, X, OM, RL_, RD = a
+        stmts = nodoc(fn.body)
+        split = [k for k, st in enumerate(stmts) if isinstance(st, ast.If) and txt(st.test) == f'not{RL_}']
+        k = T.the(split, f'{q}: `if not return_lls`')
+        if txt(stmts[k].body[0]) != 'returnmessages' and not (len(stmts[k].body) == 1 and isinstance(stmts[k].body[0], ast.Return)):
+            raise U(f'{q}: `if not return_lls` does not return the messages')
+        mname = txt(stmts[k].body[0].value)
+        def hook(tr, st):
+            if isinstance(st, ast.Assign) and len(st.targets) == 1:
+                tg, v = st.targets[0], st.value
+                if isinstance(tg, ast.Tuple) and txt(v) == f'{X}.shape' and len(tg.elts) == 2:
+                    ns, nf = [t_.id for t_ in tg.elts]
+                    return [(T.lid(nf), nf, f'((x.length : Nat) : Int)', 'int'), (T.lid(ns), ns, 'nRows', 'nrows')]
+                if isinstance(tg, ast.Name) and txt(v).startswith('np.empty(') and tr.tr(v.args[0])[1] == 'nrows':
+                    return [(T.lid(tg.id), tg.id, 'none', ('opt', 'num'))]
+                if isinstance(tg, ast.Subscript) and isinstance(tg.value, ast.Name) and isinstance(tg.slice, ast.Name):
+                    old, m = tr.tr(tg.value), tr.tr(tg.slice)
+                    if old[1] == ('opt', 'num') and m[1] == 'bool':
+                        val = tr.tr(v)
+                        if val[1] != 'num':
+                            raise U(f'{q}: `{ast.unparse(st)}` does not store one number per row')
+                        return [(T.lid(tg.value.id), tg.value.id, f'if {m[0]} then some {val[0]} else {old[0]}', ('opt', 'num'))]
+            if isinstance(st, ast.AugAssign) and isinstance(st.op, ast.Add) and isinstance(st.target, ast.Subscript) \
+                    and isinstance(st.target.value, ast.Name) and isinstance(st.target.slice, ast.Tuple) and len(st.target.slice.elts) == 2:
+                old = tr.tr(st.target.value)
+                i_, m = tr.tr(st.target.slice.elts[0]), tr.tr(st.target.slice.elts[1])
+                val = tr.tr(st.value)
+                if old[1] == ('list', VEC) and i_[1] == 'int' and m[1] == 'bool' and val[1] == VEC:
+                    nm_ = st.target.value.id
+                    return [(T.lid(nm_), nm_, f'if {m[0]} then Py4.updI {old[0]} {i_[0]} (List.zipWith (fun a b => a + b) (Py4.getI {old[0]} {i_[0]} []) {val[0]}) else {old[0]}',
+                             ('list', VEC))]
+                raise U(f'{q}: update not understood: ' + ast.unparse(st))
+            # if reduce == 'mar': messages[…] += logsumexp(…) elif reduce == 'mpe': messages[…] += np.max(…) else: raise
+            if isinstance(st, ast.If) and isinstance(st.test, ast.Compare) and txt(st.test.left) == RD:
+                arms, last = T.elif_chain(st)
+                if not (len(last) == 1 and isinstance(last[0], ast.Raise)):
+                    raise U(f'{q}: the chain on `reduce` does not end with a raise')
+                res = None
+                for test, body in reversed(arms):
+                    c = tr.as_bool(tr.tr(test))
+                    b = hook(tr, T.the(body, 'statement of a reduce arm'))
+                    if b is None:
+                        raise U(f'{q}: a reduce arm is not an update of the messages')
+                    nm_, key, term, ty = T.the(b, 'binding')
+                    res = (nm_, key, f'if {c} then ({term}) else ({res[2] if res else "raised"})', ty)
+                return [res]
+            return None
+        def mk_tr():
+            tr = TrC3(env={X: ('x', ('list', 'optval')), OM: ('obs_mask', ('list', 'bool')), RD: ('reduce', 'str')},
+                      syms={f'{S}.tree': ('tree', ('list', 'int')), f'{S}.bfs': ('bfs', ('list', 'int')), f'{S}.root': ('root', 'int')})
+            tr.selfname = S
+            tr.hooks = (np_hook(S),)
+            return tr
+        ex = T.Exec4(q, stmt_hook=hook)
+        up_text, tys = ex.run(mk_tr(), flatten_any(stmts[:k], q), [mname])
+        if tys != [('list', VEC)]:
+            raise U(f'{q}: the loop does not leave a table of messages')
+        tr2 = mk_tr()
+        tr2.env[mname] = ('messages', ('list', VEC))
+        pre = [st for st in stmts[:k] if isinstance(st, ast.Assign) and isinstance(st.targets[0], ast.Tuple)]
+        root_text, tys2 = T.Exec4(q, stmt_hook=hook).run(tr2, flatten_any(pre + stmts[k + 1:], q), T.RETURNED)
+        if tys2 != [('opt', 'num')]:
+            raise U(f'{q}: does not return one number per row')
+        sig = ('{α : Type} [Zero α] [Add α] (params : Int → Int → Int → α) (root : Int) (bfs tree : List Int) (logsumexp npMax : List α → α)')
+        return ('/-- `BinaryCLT.message_passing` on ONE row, the upward pass: `messages[i]` = the two entries `messages[i, row, :]`; logsumexp / npMax = the '
+                'reductions along the value axis; `raised` = the value of the branch that raises (`reduce` is neither \'mar\' nor \'mpe\') -/\n'
+                f'def S4cltMessages {sig} (raised : List (List α)) (nRows : Nat)\n'
+                '    (x : List (Option Nat)) (obs_mask : List Bool) (reduce : String) : List (List α) :=\n'
+                f'  {up_text}\n'
+                '/-- … and the value returned with `return_lls=True` from the final messages (`none` = the entry of `np.empty` is never written) -/\n'
+                f'def S4cltRootValue {sig} (nRows : Nat)\n'
+                '    (x : List (Option Nat)) (obs_mask : List Bool) (messages : List (List α)) : Option α :=\n'
+                f'  {root_text}')
+    const4('cltree.message_passing.body', clt_messages)
